@@ -36,15 +36,91 @@ def _env(fn):
     return {p: Poly.atom(p, {p}, {p}) for p in param_names(fn)}
 
 
-def _decide(ck, rule, site, key, got: Poly, want: Poly, shown: str, why: str, where, extra=()):
+def _unread(p: Poly) -> bool:
+    """The value contains something the engine did not read: a merge of definitions, an opaque construct, a temporary of the helper expander."""
+    import re
+    t = p.canon()
+    return "φ(" in t or "⟦" in t or "λ[" in t or re.search(r"__i\d+\b", t) is not None
+
+
+def _decide(ck, rule, site, key, got: Poly, want: Poly, shown: str, why: str, where, extra=(), atoms=None):
     """Equal -> holds.  Different -> a violation only when the value that was read is built from the documented ingredients (then the
-    two normal forms denote different functions); anything else is a form this rule does not read."""
+    two normal forms denote different functions); anything else is a form this rule does not read.  With ``atoms`` given, the value may
+    only contain the atoms of the documented value and these (a projection / slice / call the documented value does not have is not
+    an ingredient even when it is spelled with the same names)."""
     from ..sem import same_ingredients
     ok = got == want
-    if not ok and ("φ(" in got.canon() or "⟦" in got.canon() or not same_ingredients(got, want, extra)):
+    if not ok and (_unread(got) or not same_ingredients(got, want, extra) or (atoms is not None and not got.atoms() <= (want.atoms() | set(atoms)))):
         raise AnalysisError(f"{site}: {key} is `{got.canon()[:110]}` (unrecognised form)")
     ck.ob(rule, site, key, ok, shown, "" if ok else why, where)
     return ok
+
+
+def _fn_of(nf, p: Poly):
+    """(short function name, meta) of a value that is one call / subscript / projection atom, else ("", {})."""
+    m = nf.meta.get(p.single_atom() or "", {}) if p is not None else {}
+    return (m.get("fn") or "").split(".")[-1], m
+
+
+def _components(nf, p: Poly):
+    """(components, field names or None) of a value that is a tuple display or a freshly constructed record (NamedTuple / dataclass), else (None, None)."""
+    if p is None:
+        return None, None
+    if p.elems is not None:
+        return list(p.elems), None
+    m = nf.meta.get(p.single_atom() or "", {})
+    rec, args = m.get("record"), m.get("args", [])
+    if rec and len(rec) == len(args):
+        names = [next((k for k, v in rec.items() if v is a), None) for a in args]
+        if None not in names and len(set(names)) == len(names):
+            return list(args), names
+    return None, None
+
+
+_FILLS = {"zeros": 0, "zeros_like": 0, "ones": 1, "ones_like": 1}
+
+
+def _fill_value(nf, p: Poly):
+    """The value of every entry of ``p`` when its freshly filled arrays (zeros / ones / full and the *_like forms) are replaced by their fill
+    value, and the metas of the filled arrays that were replaced."""
+    sub, filled = {}, []
+    for a in p.atoms():
+        m = nf.meta.get(a, {})
+        f = (m.get("fn") or "").split(".")[-1]
+        if f in _FILLS:
+            sub[a] = Poly.const(_FILLS[f])
+            filled.append((a, f, m))
+        elif f in ("full", "full_like"):
+            v = m["args"][1] if len(m.get("args", [])) > 1 else m.get("kws", {}).get("fill_value")
+            if v is not None and v.elems is None:
+                sub[a] = v
+                filled.append((a, f, m))
+    return p.subst(sub), filled
+
+
+def _orientation(nf, p: Poly, bases):
+    """(number of reversals mod 2, base) between the sequence ``p`` and one of the plain sequences ``bases``: list / tuple / array wrappers
+    are transparent, reversed(x) / x[::-1] / flip(x) turn the order round.  None when ``p`` is not such a chain."""
+    flips = 0
+    for _ in range(16):
+        a = p.single_atom()
+        if a is None:
+            return None
+        if (bases(a) if callable(bases) else a in bases):
+            return flips % 2, a
+        f, m = _fn_of(nf, p)
+        args, kws = m.get("args", []), m.get("kws", {})
+        if f == "flip" and ((len(args) == 2 and not kws and args[1].is_const() and args[1].const_value() == 0) or (len(args) == 1 and set(kws) == {"axis"} and kws["axis"].is_const() and kws["axis"].const_value() == 0)):
+            args, kws = args[:1], {}          # flip along the first (time) axis
+        if f in ("list", "tuple", "iter", "hstack", "stack", "array", "asarray") and len(args) == 1 and not (set(kws) - {"dtype"}):
+            p = args[0]
+        elif f in ("reversed", "flip") and len(args) == 1 and not kws:
+            flips, p = flips + 1, args[0]
+        elif f == "subscript" and a.endswith("[::-1]") and args:
+            flips, p = flips + 1, args[0]
+        else:
+            return None
+    return None
 
 
 def r1_gae(ck, repo, nf):
@@ -64,6 +140,8 @@ def r1_gae(ck, repo, nf):
         raise AnalysisError(f"{q}: expected one scan call, found {len(calls)} (unrecognised form)")
     n, c = calls[0]
     b = {"f": None, "init": None, "xs": None}
+    if any(isinstance(a_, ast.Starred) for a_ in c.args) or any(kw.arg is None for kw in c.keywords):
+        raise AnalysisError(f"{q}: scan call `{short(c, 100)}` passes packed arguments (unrecognised form)")
     for i_, k_ in enumerate(("f", "init", "xs")):
         if len(c.args) > i_:
             b[k_] = c.args[i_]
@@ -71,6 +149,8 @@ def r1_gae(ck, repo, nf):
         if kw.arg in b:
             b[kw.arg] = kw.value
     reverse_kw = next((kw.value for kw in c.keywords if kw.arg == "reverse"), None)
+    if reverse_kw is None and len(c.args) > 4:
+        reverse_kw = c.args[4]            # scan(f, init, xs, length, reverse)
     unknown_kw = [kw.arg for kw in c.keywords if kw.arg not in ("f", "init", "xs", "reverse", "unroll", "length")]
     if unknown_kw or any(v is None for v in b.values()) or not isinstance(b["f"], ast.Name):
         raise AnalysisError(f"{q}: scan call `{short(c, 100)}` (unrecognised form)")
@@ -81,9 +161,12 @@ def r1_gae(ck, repo, nf):
     bp = positional_params(body)
     ck.need(len(bp) == 2, f"{q}: scan body must take (carry, inputs)")
     carry, inp = bp
-    rev_flag = isinstance(reverse_kw, ast.Constant) and reverse_kw.value is True
-    if reverse_kw is not None and not isinstance(reverse_kw, ast.Constant):
-        raise AnalysisError(f"{q}: scan(reverse={short(reverse_kw, 30)}) (unrecognised form)")
+    rev_flag = False
+    if reverse_kw is not None:
+        rvp = nf.poly(reverse_kw, osc, n.id)       # a literal, or a module-level constant
+        if not rvp.is_const() or rvp.const_value() not in (0, 1):
+            raise AnalysisError(f"{q}: scan(reverse={short(reverse_kw, 30)}) (unrecognised form)")
+        rev_flag = rvp.const_value() == 1
     # the sequences: each xs element as a polynomial over the four role sequences; `s[::-1]` marks a reversed sequence
     xs = nf.poly(b["xs"], osc, n.id)
     if xs.elems is None:
@@ -93,15 +176,17 @@ def r1_gae(ck, repo, nf):
     for e_ in xs.elems:
         sub = {}
         for a_ in e_.atoms():
-            base = a_[:-6] if a_.endswith("[::-1]") else a_
-            if base in roles:
-                sub[a_] = Poly.atom(roles[base])
-                directions.add("reversed" if a_.endswith("[::-1]") else "forward")
+            o_ = _orientation(nf, Poly.atom(a_), set(roles))
+            if o_ is not None:
+                sub[a_] = Poly.atom(roles[o_[1]])
+                directions.add("reversed" if o_[0] else "forward")
             elif a_ in (PG, PL):
                 continue
             else:
                 raise AnalysisError(f"{q}: scan input `{e_.canon()[:80]}` is not element-wise arithmetic on the four sequences (unrecognised form)")
         elems.append(e_.subst(sub))
+    if not directions:
+        raise AnalysisError(f"{q}: scan inputs `{xs.canon()[:80]}` do not contain the four sequences (unrecognised form)")
     if len(directions) != 1:
         # some sequences run forwards and some backwards through the same scan: step t of one meets step T-1-t of another
         ck.ob("R1-gae", q, "reverse-scan-inputs", False, f"scan(..., {xs.canon()[:120]})", "the scanned sequences are only partly reversed: the body combines rewards, values and terminations of different time steps", loc(mi, c))
@@ -115,17 +200,21 @@ def r1_gae(ck, repo, nf):
     cfg = nf.cfg_of(body)
     sc = Scope(cfg, mi, env, q + ".<locals>." + body.name)
     rets = [m for m in cfg.nodes if m.kind == "stmt" and isinstance(m.ast, ast.Return)]
-    ck.need(len(rets) == 1, f"{q}: scan body has {len(rets)} returns")
+    ck.need(len(rets) == 1 and rets[0].ast.value is not None, f"{q}: scan body has {len(rets)} returns")
     rp = nf.poly(rets[0].ast.value, sc, rets[0].id)
     if rp.elems is None or len(rp.elems) != 2:
         raise AnalysisError(f"{q}: scan body must return (carry, output)")
     want = nf.poly(parse_expr(f"R + {PG} * NV * (1 - D) - V + {PG} * {PL} * (1 - D) * A_prev"), Scope(None, mi, {}, q), None)
     where = loc(mi, body)
     for k, nm in ((0, "carry"), (1, "output")):
-        _decide(ck, "R1-gae", q, f"recurrence:{nm}", rp.elems[k], want, f"{nm} = {rp.elems[k].canon()[:150]}", f"differs from delta + gamma*lambda*(1-d)*A_prev by `{(rp.elems[k] - want).canon()[:150]}`", where)
+        # the carried value is the advantage itself (a pair / record as carry, a slice of it, ... is another way to organise the scan)
+        _decide(ck, "R1-gae", q, f"recurrence:{nm}", rp.elems[k], want, f"{nm} = {rp.elems[k].canon()[:150]}", f"differs from delta + gamma*lambda*(1-d)*A_prev by `{(rp.elems[k] - want).canon()[:150]}`", where, atoms=())
     init = nf.poly(b["init"], osc, n.id)
-    ok = backwards and init.is_const() and init.const_value() == 0
-    if not ok and not (init.is_const() or backwards is False):
+    init_v, _filled = _fill_value(nf, init)           # 0.0, jnp.zeros(()), jnp.zeros_like(values[0]) all start the recursion at 0
+    if init_v.elems is not None or _unread(init_v):
+        raise AnalysisError(f"{q}: scan call `{short(c, 100)}` (unrecognised form)")
+    ok = backwards and init_v.is_const() and init_v.const_value() == 0
+    if not ok and not (init_v.is_const() or backwards is False):
         raise AnalysisError(f"{q}: scan call `{short(c, 100)}` (unrecognised form)")
     ck.ob("R1-gae", q, "reverse-scan-inputs", ok, f"scan({b['f'].id}, {init.canon()[:20]}, {xs.canon()[:100]}{', reverse=True' if rev_flag else ''})",
           "" if ok else "scan must run the body from carry 0 backwards in time over (rewards, values, next_values, terminateds): all sequences reversed (or reverse=True)", loc(mi, c))
@@ -141,13 +230,14 @@ def r1_gae(ck, repo, nf):
         raise AnalysisError(f"{q}: result `{rv.canon()[:80]}` is not a pair (advantages, returns) (unrecognised form)")
     adv, ret = parts
     ac = adv.canon()
-    stacked = ac[:-6] if ac.endswith("[::-1]") else ac
-    flipped_back = ac.endswith("[::-1]")
-    if not ("scan(" in stacked and stacked.endswith("[1]")):
+    # the stacked scan output, possibly turned round: the projection [1] of the one scan call of this routine
+    o_ = _orientation(nf, adv, lambda a_: nf.meta.get(a_, {}).get("fn") == "proj" and a_.endswith("[1]") and bool(nf.meta[a_].get("args")) and _fn_of(nf, nf.meta[a_]["args"][0])[0] == "scan")
+    if o_ is None:
         raise AnalysisError(f"{q}: advantages `{ac[:100]}` are not the stacked scan output (unrecognised form)")
+    flipped_back = o_[0] == 1
     ok = flipped_back != rev_flag        # reversed inputs need the flip back; reverse=True returns time order already
     ck.ob("R1-gae", q, "output-reversed-back", ok, f"advantages = {ac[:120]}", "" if ok else "the stacked scan output must be in time order: reversed back when the inputs were reversed, as returned with reverse=True", loc(mi, orets[0].ast))
-    _decide(ck, "R1-gae", q, "returns", ret, adv + Poly.atom(PV, {PV}, {PV}), f"returns = {ret.canon()[:120]}", "returns must be advantages + values", loc(mi, orets[0].ast), extra=("scan", "jax", "lax"))
+    _decide(ck, "R1-gae", q, "returns", ret, adv + Poly.atom(PV, {PV}, {PV}), f"returns = {ret.canon()[:120]}", "returns must be advantages + values", loc(mi, orets[0].ast), extra=("scan", "jax", "lax"), atoms=(PR, PV, PNV, PD))
 
 
 def _loop_body_eval(nf, fn, mi, q, loop, env0):
@@ -162,36 +252,92 @@ def _loop_body_eval(nf, fn, mi, q, loop, env0):
     return pe
 
 
+def _range_parts(nf, p: Poly):
+    """(start, stop, step) of a `range(...)` value, else None."""
+    f, m = _fn_of(nf, p)
+    a = m.get("args", [])
+    if f != "range" or m.get("kws") or not 1 <= len(a) <= 3 or any(x.elems is not None for x in a):
+        return None
+    return (Poly.const(0), a[0], Poly.const(1)) if len(a) == 1 else (a[0], a[1], a[2] if len(a) == 3 else Poly.const(1))
+
+
 def r2_nstep(ck, repo, nf):
     q = "rl_blox.blox.return_estimates.discounted_n_step_return"
     fn = repo.func(q)
     mi = fn._module
-    loops = [n for n in fn.body if isinstance(n, ast.For)]
-    ck.need(len(loops) == 1, f"{q}: expected one loop over the horizon")
+    pp = positional_params(fn)
+    ck.need(len(pp) >= 3, f"{q}: signature changed (anchor vanished)")
+    PR, PD, PG = pp[:3]                   # rewards (B, H), terminations (B, H), discount factor: by position of the public signature
+    loops = [n for n in fn.body if isinstance(n, (ast.For, ast.While))]
+    ck.need(len(loops) == 1 and not loops[0].orelse, f"{q}: expected one loop over the horizon")
     lp = loops[0]
     where = loc(mi, lp)
     env = _env(fn)
-    rets = [n for n in ast.walk(fn) if isinstance(n, ast.Return)]
-    rv = rets[0].value
+    cfg = nf.cfg_of(fn)
+    hdr = cfg.stmt_node[id(lp)]
+    counter_stop = None
+    if isinstance(lp, ast.While):
+        # `t = 0; while t < H: ...; t += 1` is the same iteration as `for t in range(H)`: the counter is read like the loop variable
+        ts = lp.test
+        if isinstance(ts, ast.Compare) and len(ts.ops) == 1 and isinstance(ts.ops[0], ast.Lt) and isinstance(ts.left, ast.Name):
+            counter_stop = (ts.left.id, ts.comparators[0])
+        elif isinstance(ts, ast.Compare) and len(ts.ops) == 1 and isinstance(ts.ops[0], ast.Gt) and isinstance(ts.comparators[0], ast.Name):
+            counter_stop = (ts.comparators[0].id, ts.left)
+        else:
+            raise AnalysisError(f"{q}: loop condition `{short(ts, 50)}` (unrecognised form)")
+    rets = [n for n in cfg.nodes if n.kind == "stmt" and isinstance(n.ast, ast.Return) and n.ast.value is not None]
+    ck.need(len(rets) == 1, f"{q}: expected one return")
+    rv = rets[0].ast.value
     ck.need(isinstance(rv, ast.Tuple) and len(rv.elts) == 2 and all(isinstance(x, ast.Name) for x in rv.elts), f"{q}: must return (n_step_return, discount)")
     G, C = rv.elts[0].id, rv.elts[1].id
+    for nm in (G, C):
+        if not any(d.node in cfg.loop_body_nodes(hdr) for d in cfg.defs_of(rets[0].id, nm)):
+            raise AnalysisError(f"{q}: the returned `{nm}` is not the value carried by the loop (unrecognised form)")
     env0 = dict(env)
     env0[G] = Poly.atom("G", {"G"}, {"G"})
     env0[C] = Poly.atom("c", {"c"}, {"c"})
-    pe = _loop_body_eval(nf, fn, mi, q, lp, env0)
-    t = lp.target.id if isinstance(lp.target, ast.Name) else None
-    ck.need(t is not None, f"{q}: loop variable not a name")
-    tt = pe.env[t].canon()
-    ssc = Scope(None, mi, {**env, "G": env0[G], "c": env0[C], t: pe.env[t]}, q)
-    wantG = nf.poly(parse_expr(f"G + c * reward[:, {t}]"), ssc, None)
-    wantC = nf.poly(parse_expr(f"c * gamma * (1 - terminated[:, {t}])"), ssc, None)
-    _decide(ck, "R2-n-step", q, "return-update", pe.env[G], wantG, f"G' = {pe.env[G].canon()[:120]}", f"expected G + c*r_t (with the discount *before* this step), difference `{(pe.env[G] - wantG).canon()[:120]}`", where, extra=("gamma", "terminated"))
-    _decide(ck, "R2-n-step", q, "discount-update", pe.env[C], wantC, f"c' = {pe.env[C].canon()[:120]}", f"expected c*gamma*(1 - d_t), difference `{(pe.env[C] - wantC).canon()[:120]}`", where, extra=("reward",))
-    it = ast.unparse(lp.iter)
-    itp = nf.poly(lp.iter, Scope(nf.cfg_of(fn), mi, env, q), nf.cfg_of(fn).stmt_node[id(lp)])
-    _decide(ck, "R2-n-step", q, "horizon-range", itp, nf.poly(parse_expr("range(reward.shape[1])"), Scope(None, mi, env, q), None), f"for {t} in {it}", "the loop must cover every step of the sub-trajectory exactly once, in order", where, extra=("terminated",))
-    cfg = nf.cfg_of(fn)
-    hdr = cfg.stmt_node[id(lp)]
+    if counter_stop is not None:
+        t = counter_stop[0]
+        ck.need(t not in (G, C) and t not in env, f"{q}: loop counter `{t}` (unrecognised form)")
+        env0[t] = Poly.atom(t, {t}, {t})
+        pe = _loop_body_eval(nf, fn, mi, q, lp, env0)
+        t_val = env0[t]
+    else:
+        pe = _loop_body_eval(nf, fn, mi, q, lp, env0)
+        t = lp.target.id if isinstance(lp.target, ast.Name) else None
+        ck.need(t is not None, f"{q}: loop variable not a name")
+        t_val = pe.env[t]
+    ssc = Scope(None, mi, {**env, "G": env0[G], "c": env0[C], t: t_val}, q)
+    wantG = nf.poly(parse_expr(f"G + c * {PR}[:, {t}]"), ssc, None)
+    wantC = nf.poly(parse_expr(f"c * {PG} * (1 - {PD}[:, {t}])"), ssc, None)
+    both = wantG.atoms() | wantC.atoms()
+    _decide(ck, "R2-n-step", q, "return-update", pe.env[G], wantG, f"G' = {pe.env[G].canon()[:120]}", f"expected G + c*r_t (with the discount *before* this step), difference `{(pe.env[G] - wantG).canon()[:120]}`", where, extra=(PG, PD), atoms=both)
+    _decide(ck, "R2-n-step", q, "discount-update", pe.env[C], wantC, f"c' = {pe.env[C].canon()[:120]}", f"expected c*gamma*(1 - d_t), difference `{(pe.env[C] - wantC).canon()[:120]}`", where, extra=(PR,), atoms=both)
+    # the loop runs t = 0 .. H-1: range(H), range(0, H), range(0, H, 1) with H the second axis of either (B, H) array
+    if counter_stop is not None:
+        it = f"range(...) as `while {ast.unparse(lp.test)}`"
+        ds = [d for d in cfg.defs_of(hdr, t) if d.node not in cfg.loop_body_nodes(hdr)]
+        if len(ds) != 1 or ds[0].kind != "assign" or t in {x.id for x in ast.walk(counter_stop[1]) if isinstance(x, ast.Name)}:
+            raise AnalysisError(f"{q}: the loop counter `{t}` (unrecognised form)")
+        rg = (nf.poly(ds[0].value, Scope(cfg, mi, env, q), ds[0].node), nf.poly(counter_stop[1], Scope(cfg, mi, env, q), hdr), pe.env[t] - env0[t])
+        itp = Poly.atom(f"range({', '.join(x.canon() for x in rg)})")
+        if any(d.name != t and d.node in cfg.loop_body_nodes(hdr) for x in ast.walk(counter_stop[1]) if isinstance(x, ast.Name) for d in cfg.defs_of(hdr, x.id)):
+            raise AnalysisError(f"{q}: the loop bound `{short(counter_stop[1], 40)}` changes in the loop (unrecognised form)")
+    else:
+        it = ast.unparse(lp.iter)
+        itp = nf.poly(lp.iter, Scope(cfg, mi, env, q), hdr)
+        rg = _range_parts(nf, itp)
+    if rg is None or any(_unread(x) or x.elems is not None for x in rg):
+        raise AnalysisError(f"{q}: the loop iterates over `{itp.canon()[:80]}` (unrecognised form)")
+    start, stop, step = rg
+    horizons = [Poly.atom(f"{p_}.shape[{k_}]") for p_ in (PR, PD) for k_ in ("1", "-1")]
+    ok = start.is_const() and start.const_value() == 0 and step.is_const() and step.const_value() == 1 and any(stop == h_ for h_ in horizons)
+    if not ok:
+        evidence = (start.is_const() and start.const_value() != 0) or (step.is_const() and step.const_value() != 1) or any((stop - h_).is_const() and not (stop - h_).is_zero() for h_ in horizons) \
+            or stop.canon() in (f"{PR}.shape[0]", f"{PD}.shape[0]")
+        if not evidence:
+            raise AnalysisError(f"{q}: the loop iterates over `{itp.canon()[:80]}` (unrecognised form)")
+    ck.ob("R2-n-step", q, "horizon-range", ok, f"for {t} in {it}", "" if ok else "the loop must cover every step of the sub-trajectory exactly once, in order", where)
     sc = Scope(cfg, mi, env, q)
     inits = {}
     for nm in (G, C):
@@ -199,139 +345,381 @@ def r2_nstep(ck, repo, nf):
         if len(ds) != 1 or ds[0].kind != "assign":
             raise AnalysisError(f"{q}: initial value of `{nm}` is not a single assignment before the loop (unrecognised form)")
         inits[nm] = nf.poly(ds[0].value, sc, ds[0].node)
-    sc_w = Scope(None, mi, env, q)
     shown = f"G0 = {inits[G].canon()[:50]}, c0 = {inits[C].canon()[:50]}"
-
-    def _is(pv, fname):
-        m_ = nf.meta.get(pv.single_atom() or "", {})
-        a0 = m_.get("args", [None])[0] if m_.get("args") else m_.get("kws", {}).get("shape")
-        return m_.get("fn", "").split(".")[-1] == fname and a0 is not None and a0.canon() in ("reward.shape[0]", "(reward.shape[0])")
-    ok = _is(inits[G], "zeros") and _is(inits[C], "ones")
-    if not ok:
-        from ..sem import same_ingredients
-        ref = nf.poly(parse_expr("jnp.zeros(reward.shape[0], dtype=jnp.float32) + jnp.ones(reward.shape[0], dtype=jnp.float32)"), sc_w, None)
-        if not all(same_ingredients(inits[x_], ref, ("gamma", "terminated", "full", "zeros_like", "ones_like")) for x_ in (G, C)):
+    # value: every entry 0 / 1 (a wrong constant, or a value that varies with the arguments, is a different start); shape: one entry per
+    # sub-trajectory, i.e. the first axis of either (B, H) array
+    per_sample = {f"{p_}.shape[0]" for p_ in (PR, PD)} | {f"({p_}.shape[0])" for p_ in (PR, PD)} | {f"{p_}.shape[:1]" for p_ in (PR, PD)} | {f"{p_}.shape[:-1]" for p_ in (PR, PD)}
+    other_shape = {f"{p_}.shape[{k_}]" for p_ in (PR, PD) for k_ in ("1", "-1")} | {f"({p_}.shape[{k_}])" for p_ in (PR, PD) for k_ in ("1", "-1")} | {f"{p_}.shape" for p_ in (PR, PD)}
+    verdicts = []
+    for nm, target in ((G, 0), (C, 1)):
+        p_ = inits[nm]
+        val, filled = _fill_value(nf, p_)
+        if _unread(p_) or val.elems is not None:
             raise AnalysisError(f"{q}: initial values {shown} (unrecognised form)")
-        # zeros_like / full spellings of the right constants are not read as violations
-        if any(t_ in inits[x_].canon() for x_ in (G, C) for t_ in ("full(", "zeros_like(", "ones_like(")):
+        if val.is_const():
+            if val.const_value() != target:
+                verdicts.append(False)
+                continue
+        else:
+            from ..sem import ingredient_tokens
+            if ingredient_tokens(val) <= set(pp) and val.atoms() <= set(pp):
+                verdicts.append(False)         # a polynomial in the arguments themselves, not the constant
+                continue
             raise AnalysisError(f"{q}: initial values {shown} (unrecognised form)")
+        if len(filled) != 1 or p_.single_atom() != filled[0][0]:
+            raise AnalysisError(f"{q}: initial values {shown} (unrecognised form)")
+        _a, f_, m_ = filled[0]
+        import re as _re
+        if f_.endswith("_like"):
+            like = m_["args"][0].canon() if m_.get("args") else ""
+            if not any(_re.fullmatch(_re.escape(x_) + r"\[:, -?\d+\]", like) for x_ in (PR, PD)):
+                raise AnalysisError(f"{q}: initial values {shown} (unrecognised form)")
+            verdicts.append(True)
+            continue
+        shp = m_["args"][0] if m_.get("args") else m_.get("kws", {}).get("shape")
+        stx = shp.canon() if shp is not None else ""
+        if stx in per_sample:
+            verdicts.append(True)
+        elif stx in other_shape:
+            verdicts.append(False)
+        else:
+            raise AnalysisError(f"{q}: initial values {shown} (unrecognised form)")
+    ok = all(verdicts)
     ck.ob("R2-n-step", q, "initial-values", ok, shown, "" if ok else "G must start at 0 and the discount at 1, one entry per sub-trajectory", loc(mi, fn))
+
+
+def _strip_seq_wrappers(repo, mi, e):
+    """list(x) / tuple(x) / np.asarray(x) / np.array(x) of a sequence is the same sequence of elements."""
+    while isinstance(e, ast.Call) and len(e.args) == 1 and not isinstance(e.args[0], ast.Starred) and not [k for k in e.keywords if k.arg != "dtype"]:
+        r = repo.resolve_expr(mi, e.func) if isinstance(e.func, (ast.Name, ast.Attribute)) else None
+        if (isinstance(e.func, ast.Name) and e.func.id in ("list", "tuple") and r is None) or r in ("numpy.array", "numpy.asarray", "jax.numpy.array", "jax.numpy.asarray"):
+            e = e.args[0]
+        else:
+            break
+    return e
+
+
+def _binding_iter(node, name):
+    """The iterable whose elements the comprehension / loop variable ``name`` (as seen from ``node``) ranges over, else None."""
+    child, anc = node, getattr(node, "_parent", None)
+    while anc is not None and not isinstance(anc, (ast.FunctionDef, ast.AsyncFunctionDef, ast.Lambda)):
+        gens = anc.generators if isinstance(anc, (ast.ListComp, ast.GeneratorExp, ast.SetComp)) else ([anc] if isinstance(anc, ast.For) and child not in (anc.iter, anc.target) else [])
+        for g in reversed(gens):
+            if not any(isinstance(x, ast.Name) and x.id == name for x in ast.walk(g.target)):
+                continue
+            if isinstance(g.target, ast.Name):
+                return g.iter
+            if isinstance(g.target, ast.Tuple) and len(g.target.elts) == 2 and isinstance(g.target.elts[1], ast.Name) and g.target.elts[1].id == name \
+                    and isinstance(g.iter, ast.Call) and isinstance(g.iter.func, ast.Name) and g.iter.func.id == "enumerate" and len(g.iter.args) == 1 and not g.iter.keywords:
+                return g.iter.args[0]        # for i, x in enumerate(xs)
+            return None
+        child, anc = anc, getattr(anc, "_parent", None)
+    return None
+
+
+def _list_valued(e, cfg=None, at=None):
+    if isinstance(e, (ast.ListComp, ast.List)):
+        return True
+    if isinstance(e, ast.Call) and isinstance(e.func, ast.Name) and e.func.id in ("list", "tuple") and len(e.args) <= 1:
+        return True
+    if isinstance(e, ast.Name) and cfg is not None and at is not None:
+        ds = cfg.defs_of(at, e.id)
+        return bool(ds) and all(d.kind == "assign" and _list_valued(d.value) for d in ds)
+    return False
+
+
+def _comp_grouping(x, episodes="self.episodes"):
+    """A comprehension over the episodes: True - one inner list per episode; False - the steps of all episodes in one flat list; None - not read."""
+    if not isinstance(x, ast.ListComp) or dotted(x.generators[0].iter) != episodes or any(g.ifs for g in x.generators):
+        return None
+    if len(x.generators) == 1:
+        return True if _list_valued(x.elt) else None
+    g0, g1 = x.generators[0], x.generators[1]
+    if len(x.generators) == 2 and isinstance(g0.target, ast.Name) and isinstance(g1.iter, ast.Name) and g1.iter.id == g0.target.id and not _list_valued(x.elt):
+        return False
+    return None
+
+
+def _rewards_grouping(nf, rw):
+    """How the collection returned by ``_rewards`` is organised (see _comp_grouping)."""
+    cfg = nf.cfg_of(rw)
+    rets = [n for n in cfg.nodes if n.kind == "stmt" and isinstance(n.ast, ast.Return) and n.ast.value is not None]
+    if len(rets) != 1:
+        return None
+    v = rets[0].ast.value
+    if isinstance(v, ast.ListComp):
+        return _comp_grouping(v)
+    if not isinstance(v, ast.Name):
+        return None
+    ds = cfg.defs_of(rets[0].id, v.id)
+    if len(ds) != 1 or ds[0].kind != "assign":
+        return None
+    if isinstance(ds[0].value, ast.ListComp):
+        return _comp_grouping(ds[0].value)
+    if not (isinstance(ds[0].value, ast.List) and not ds[0].value.elts) and not (isinstance(ds[0].value, ast.Call) and isinstance(ds[0].value.func, ast.Name) and ds[0].value.func.id == "list" and not ds[0].value.args):
+        return None
+    # built in a loop over the episodes: growth of the *returned* list by one list per episode (append) or by the steps themselves (extend / +=)
+    verdicts = []
+    for x in ast.walk(rw):
+        grow = None
+        if isinstance(x, ast.Call) and isinstance(x.func, ast.Attribute) and isinstance(x.func.value, ast.Name) and x.func.value.id == v.id and x.func.attr in ("append", "extend", "insert"):
+            grow = (x.func.attr, x.args[0] if len(x.args) == 1 and not x.keywords else None, x)
+        elif isinstance(x, ast.AugAssign) and isinstance(x.target, ast.Name) and x.target.id == v.id:
+            grow = ("extend" if isinstance(x.op, ast.Add) else "?", x.value, x)
+        if grow is None:
+            continue
+        kind, arg, at = grow
+        anc = getattr(at, "_parent", None)
+        while anc is not None and not isinstance(anc, (ast.For, ast.While, ast.FunctionDef)):
+            anc = getattr(anc, "_parent", None)
+        if not isinstance(anc, ast.For) or dotted(anc.iter) != "self.episodes" or arg is None:
+            return None
+        nid = cfg.node_of(at).id
+        if kind == "append":
+            verdicts.append(True if _list_valued(arg, cfg, nid) else None)
+        elif kind == "extend":
+            one_list = isinstance(arg, ast.List) and len(arg.elts) == 1 and _list_valued(arg.elts[0], cfg, nid)
+            flat = isinstance(arg, (ast.ListComp, ast.GeneratorExp)) and len(arg.generators) == 1 and not _list_valued(arg.elt) and isinstance(anc.target, ast.Name) and dotted(arg.generators[0].iter) == anc.target.id
+            verdicts.append(True if one_list else (False if flat else None))
+        else:
+            verdicts.append(None)
+    if not verdicts or any(x is None for x in verdicts) or len(set(verdicts)) != 1:
+        return None
+    return verdicts[0]
 
 
 def r3_rtg(ck, repo, nf):
     q = "rl_blox.algorithm.reinforce.discounted_reward_to_go"
     fn = repo.func(q)
     mi = fn._module
+    pp = positional_params(fn)
+    ck.need(len(pp) >= 2, f"{q}: signature changed (anchor vanished)")
+    RW, PG = pp[:2]                        # the rewards of one episode, the discount factor: by position of the public signature
     loops = [n for n in fn.body if isinstance(n, ast.For)]
     ck.need(len(loops) == 1, f"{q}: expected one loop (anchor / idiom changed)")
     lp = loops[0]
     where = loc(mi, lp)
     env = _env(fn)
-    # accumulator: the value appended in the loop
-    apps = [c for c in ast.walk(lp) if isinstance(c, ast.Call) and isinstance(c.func, ast.Attribute) and c.func.attr == "append"]
-    ck.need(len(apps) == 1 and isinstance(apps[0].args[0], ast.Name), f"{q}: expected one append of the accumulator")
-    acc, lst = apps[0].args[0].id, dotted(apps[0].func.value)
+    cfg = nf.cfg_of(fn)
+    hdr = cfg.stmt_node[id(lp)]
+    inside = cfg.loop_body_nodes(hdr)
+    ck.need(isinstance(lp.target, ast.Name), f"{q}: loop variable not a name")
+    r = lp.target.id
+    # the recorded list: the one list grown in the loop; the accumulator: the one variable the loop body both reads from the previous
+    # iteration and rebinds (defined before the loop and in it)
+    apps = [c for c in ast.walk(lp) if isinstance(c, ast.Call) and isinstance(c.func, ast.Attribute) and c.func.attr == "append" and isinstance(c.func.value, ast.Name)]
+    ck.need(len(apps) == 1 and len(apps[0].args) == 1 and not apps[0].keywords, f"{q}: expected one append of the accumulator")
+    lst = apps[0].func.value.id
+    carried = sorted({d.name for nid in inside for d in cfg.nodes[nid].defs if d.name not in (r, lst) and any(d0.node not in inside and d0.node != hdr for d0 in cfg.defs_of(hdr, d.name))})
+    if len(carried) != 1:
+        raise AnalysisError(f"{q}: the loop carries {carried} from one step to the next, expected one accumulator (unrecognised form)")
+    acc = carried[0]
     env0 = dict(env)
     env0[acc] = Poly.atom("acc", {"acc"}, {"acc"})
     pe = _loop_body_eval(nf, fn, mi, q, lp, env0)
-    r = lp.target.id
-    want = nf.poly(parse_expr(f"gamma * acc + {r}"), Scope(None, mi, {**env, "acc": env0[acc], r: pe.env[r]}, q), None)
-    _decide(ck, "R3-reward-to-go", q, "recurrence", pe.env[acc], want, f"acc' = {pe.env[acc].canon()[:100]}", f"expected gamma*acc + r, difference `{(pe.env[acc] - want).canon()[:100]}`", where)
-    appended = [v for (nid, tgt, v) in pe.log if tgt == "<expr>" and ".append(" in v.canon()]
-    ok = len(appended) == 1 and appended[0].canon() == f"{lst}.append({want.canon()})"
-    ck.ob("R3-reward-to-go", q, "records-updated-value", ok, f"{appended[0].canon()[:100] if appended else None}", "" if ok else "each step must record the accumulator after adding that step's reward", where)
-    RW = positional_params(fn)[0]
+    want = nf.poly(parse_expr(f"{PG} * acc + {r}"), Scope(None, mi, {**env, "acc": env0[acc], r: pe.env[r]}, q), None)
+    _decide(ck, "R3-reward-to-go", q, "recurrence", pe.env[acc], want, f"acc' = {pe.env[acc].canon()[:100]}", f"expected gamma*acc + r, difference `{(pe.env[acc] - want).canon()[:100]}`", where, atoms=())
+    # the value recorded at each step: the argument of the append as the path evaluation saw it
+    appended = [v for (nid, tgt, v) in pe.log if tgt == "<expr>" and (nf.meta.get(v.single_atom() or "", {}).get("fn") or "") == f"{lst}.append" and len(nf.meta[v.single_atom()].get("args", [])) == 1]
+    if len(appended) != 1:
+        raise AnalysisError(f"{q}: the value appended to `{lst}` was not read (unrecognised form)")
+    rec = nf.meta[appended[0].single_atom()]["args"][0]
+    _decide(ck, "R3-reward-to-go", q, "records-updated-value", rec, want, f"{appended[0].canon()[:100]}", "each step must record the accumulator after adding that step's reward", where, atoms=())
+    # direction of the iteration: an odd number of reversals between the rewards and what the loop runs over
+    itp = nf.poly(lp.iter, Scope(cfg, mi, env, q), hdr)
     ittxt = ast.unparse(lp.iter)
-    ok = ittxt in (f"reversed({RW})", f"{RW}[::-1]", f"reversed(list({RW}))", f"list(reversed({RW}))")
-    if not ok and ittxt != RW:
-        raise AnalysisError(f"{q}: the loop iterates over `{ittxt[:50]}` (unrecognised form)")
+    o_ = _orientation(nf, itp, {RW})
+    if o_ is None:
+        raise AnalysisError(f"{q}: the loop iterates over `{itp.canon()[:50]}` (unrecognised form)")
+    ok = o_[0] == 1
     ck.ob("R3-reward-to-go", q, "backward-iteration", ok, f"for {r} in {ittxt}", "" if ok else "the accumulation must run backwards over the rewards", where)
-    rets = [n for n in ast.walk(fn) if isinstance(n, ast.Return)]
-    txt = ast.unparse(rets[0].value)
-    # the recorded list is brought back into time order: reversed(lst) / lst[::-1] in the result, or lst.reverse() in place after the loop
-    inplace = [c for c in ast.walk(fn) if isinstance(c, ast.Call) and isinstance(c.func, ast.Attribute) and c.func.attr == "reverse" and dotted(c.func.value) == lst and not c.args
-               and getattr(c, "lineno", 0) > getattr(lp, "end_lineno", 0)]
-    n_rev = txt.count(f"reversed({lst})") + txt.count(f"{lst}[::-1]") + len(inplace)
-    mentions = [x for x in ast.walk(rets[0].value) if isinstance(x, ast.Name) and x.id == lst]
-    if not mentions:
-        raise AnalysisError(f"{q}: the result `{txt[:60]}` does not mention the recorded list `{lst}` (unrecognised form)")
-    other_calls = [dotted(c.func) for c in ast.walk(rets[0].value) if isinstance(c, ast.Call) and dotted(c.func) not in ("reversed", "list", "tuple", "np.array", "np.asarray", "jnp.array", "jnp.asarray", "np.hstack", "jnp.hstack", "np.stack", "jnp.stack")]
-    if other_calls or n_rev > 1:
+    rets = [n for n in cfg.nodes if n.kind == "stmt" and isinstance(n.ast, ast.Return) and n.ast.value is not None]
+    ck.need(len(rets) == 1, f"{q}: expected one return")
+    txt = ast.unparse(rets[0].ast.value)
+    # the recorded list is brought back into time order: an odd number of reversals between the list and the result (reversed(lst) /
+    # lst[::-1] / np.array(lst)[::-1], through locals), counting lst.reverse() in place after the loop
+    rsc = Scope(cfg, mi, env, q)
+    rsc.opaque_names.add(lst)
+    o_ = _orientation(nf, nf.poly(rets[0].ast.value, rsc, rets[0].id), {lst})
+    if o_ is None:
         raise AnalysisError(f"{q}: the result `{txt[:60]}` (unrecognised form)")
-    ok = n_rev == 1
-    ck.ob("R3-reward-to-go", q, "result-reversed", ok, f"return {txt}" + (f" after {lst}.reverse()" if inplace else ""), "" if ok else "the recorded values must be reversed back into time order", loc(mi, rets[0]))
-    cfg = nf.cfg_of(fn)
-    hdr = cfg.stmt_node[id(lp)]
-    ds = [d for d in cfg.defs_of(hdr, acc) if hdr not in cfg.enclosing_loops(d.node)]
-    ok = len(ds) == 1 and isinstance(ds[0].value, ast.Constant) and ds[0].value.value == 0
-    ck.ob("R3-reward-to-go", q, "initial-value", ok, f"{acc}0 = {ast.unparse(ds[0].value) if ds else None}", "" if ok else "the accumulator must start at 0", loc(mi, fn))
+    inplace = [s_ for s_ in ast.walk(fn) if isinstance(s_, ast.Expr) and isinstance(s_.value, ast.Call) and isinstance(s_.value.func, ast.Attribute) and s_.value.func.attr in ("reverse", "sort") and dotted(s_.value.func.value) == lst]
+    if any(s_.value.func.attr != "reverse" or s_.value.args or s_.value.keywords or s_ not in fn.body or fn.body.index(s_) < fn.body.index(lp) for s_ in inplace):
+        raise AnalysisError(f"{q}: `{lst}` is reordered in place in a way this rule does not read (unrecognised form)")
+    ok = (o_[0] + len(inplace)) % 2 == 1
+    ck.ob("R3-reward-to-go", q, "result-reversed", ok, f"return {txt}" + (f" after {lst}.reverse()" if inplace else ""), "" if ok else "the recorded values must be reversed back into time order", loc(mi, rets[0].ast))
+    ds = [d for d in cfg.defs_of(hdr, acc) if d.node not in inside and d.node != hdr]
+    if len(ds) != 1 or ds[0].kind != "assign":
+        raise AnalysisError(f"{q}: initial value of `{acc}` is not a single assignment before the loop (unrecognised form)")
+    a0, _filled = _fill_value(nf, nf.poly(ds[0].value, Scope(cfg, mi, env, q), ds[0].node))
+    if not a0.is_const() or a0.elems is not None:
+        raise AnalysisError(f"{q}: initial value `{a0.canon()[:50]}` of the accumulator (unrecognised form)")
+    ok = a0.const_value() == 0
+    ck.ob("R3-reward-to-go", q, "initial-value", ok, f"{acc}0 = {ast.unparse(ds[0].value)}", "" if ok else "the accumulator must start at 0", loc(mi, fn))
     # every episode is processed separately by the caller
     cq = "rl_blox.algorithm.reinforce.EpisodeDataset.prepare_policy_gradient_dataset"
     m = repo.method("rl_blox.algorithm.reinforce.EpisodeDataset", "prepare_policy_gradient_dataset")
     ck.need(m is not None, f"{cq} not found")
-    calls = [c for c in ast.walk(m[1]) if isinstance(c, ast.Call) and dotted(c.func) == "discounted_reward_to_go"]
+    mmi = m[1]._module
+    calls = [c for c in ast.walk(m[1]) if isinstance(c, ast.Call) and isinstance(c.func, (ast.Name, ast.Attribute)) and repo.resolve_expr(mmi, c.func) == q]
     if len(calls) != 1:
         raise AnalysisError(f"{cq}: expected one discounted_reward_to_go call, found {len(calls)}")
-    par = getattr(calls[0], "_parent", None)
-    # the call is applied element-wise to a collection of per-episode reward lists: comprehension or loop over `self._rewards()` (or a
-    # local holding it); applying it once to everything concatenated would accumulate across episode boundaries
-    per_episode = None
-    it_src = None
-    if isinstance(par, (ast.ListComp, ast.GeneratorExp)) and len(par.generators) == 1:
-        it_src = par.generators[0].iter
-        per_episode = isinstance(par.generators[0].target, ast.Name) and dotted(calls[0].args[0]) == par.generators[0].target.id
-    else:
-        anc = par
-        while anc is not None and not isinstance(anc, (ast.For, ast.FunctionDef)):
-            anc = getattr(anc, "_parent", None)
-        if isinstance(anc, ast.For) and isinstance(anc.target, ast.Name) and dotted(calls[0].args[0]) == anc.target.id:
-            it_src, per_episode = anc.iter, True
-    if per_episode is None:
-        a0 = calls[0].args[0] if calls[0].args else None
-        if isinstance(a0, ast.Call) and "concatenate" in (dotted(a0.func) or "") or (isinstance(a0, ast.Call) and dotted(a0.func) in ("sum", "itertools.chain", "chain")):
+    call = calls[0]
+    par = getattr(call, "_parent", None)
+    if any(isinstance(a_, ast.Starred) for a_ in call.args) or any(k_.arg is None for k_ in call.keywords):
+        raise AnalysisError(f"{cq}: `{short(call, 70)}` passes packed arguments (unrecognised form)")
+    a0 = bind_call(fn, call).get(RW)       # by the signature of discounted_reward_to_go: positional or keyword
+    if a0 is None:
+        raise AnalysisError(f"{cq}: `{short(call, 70)}` does not pass the rewards (unrecognised form)")
+    a0 = _strip_seq_wrappers(repo, mmi, a0)
+    # the call is applied to each element of a collection of per-episode reward lists (comprehension or loop variable ranging over
+    # `self._rewards()` or a local holding it); applying it once to everything concatenated would accumulate across episode boundaries
+    mcfg = nf.cfg_of(m[1])
+    at = mcfg.node_of(call).id
+    per_episode, it_src = None, None
+    if isinstance(a0, ast.Name):
+        it_src = _binding_iter(call, a0.id)
+        per_episode = True if it_src is not None else None
+    elif isinstance(a0, ast.Call):
+        r0 = (repo.resolve_expr(mmi, a0.func) if isinstance(a0.func, (ast.Name, ast.Attribute)) else None) or dotted(a0.func)
+        joins = r0.split(".")[-1] in ("concatenate", "hstack", "chain", "from_iterable") or (isinstance(a0.func, ast.Name) and a0.func.id == "sum" and len(a0.args) == 2)
+
+        def whole_collection(e):
+            if isinstance(e, ast.Name):
+                ds_ = mcfg.defs_of(at, e.id)
+                return len(ds_) == 1 and ds_[0].kind == "assign" and ds_[0].value is not None and not isinstance(ds_[0].value, ast.Name) and whole_collection(ds_[0].value)
+            return isinstance(e, ast.Call) and isinstance(e.func, ast.Attribute) and isinstance(e.func.value, ast.Name) and e.func.value.id == "self" and e.func.attr == "_rewards"
+        # evidence for "across episodes": the rewards of all episodes joined into one sequence (and nothing that ranges over the episodes)
+        if joins and any(whole_collection(y) for y in ast.walk(a0) if isinstance(y, (ast.Name, ast.Call))) and not any(isinstance(y, ast.Name) and _binding_iter(call, y.id) is not None for y in ast.walk(a0)):
             per_episode = False
-        else:
-            raise AnalysisError(f"{cq}: application of discounted_reward_to_go `{short(calls[0], 70)}` not recognised")
-    src_txt = ast.unparse(it_src) if it_src is not None else ""
-    if per_episode and it_src is not None and isinstance(it_src, ast.Name):
-        mcfg = nf.cfg_of(m[1])
-        ds = mcfg.defs_of(mcfg.node_of(calls[0]).id, it_src.id)
-        if len(ds) == 1 and ds[0].value is not None:
-            src_txt = ast.unparse(ds[0].value)
-    ok = bool(per_episode) and "self._rewards()" in src_txt
-    if per_episode and "self._rewards()" not in src_txt and "episode" not in src_txt:
-        raise AnalysisError(f"{cq}: reward-to-go is computed over `{src_txt[:60]}` (unrecognised idiom)")
-    ck.ob("R4-per-trajectory", cq, "per-episode-returns", ok, f"{short(par) if par is not None else None}", "" if ok else "reward-to-go must be computed per episode (one call per episode's reward list)", loc(m[1]._module, m[1]))
-    rw = repo.method("rl_blox.algorithm.reinforce.EpisodeDataset", "_rewards")[1]
-    # _rewards returns one inner list per episode: nested comprehension / loop with an inner list; a single comprehension with two
-    # generators flattens the episodes
-    rets_ = [x for x in ast.walk(rw) if isinstance(x, ast.Return) and x.value is not None]
-    grouped = None
-    for x in ast.walk(rw):
-        if isinstance(x, ast.ListComp):
-            if len(x.generators) >= 2 and "episode" in ast.unparse(x.generators[0].iter):
-                grouped = False
-            elif len(x.generators) == 1 and isinstance(x.elt, (ast.ListComp, ast.List, ast.Call)) and "episodes" in ast.unparse(x.generators[0].iter):
-                grouped = True if grouped is None else grouped
-        if isinstance(x, ast.Call) and isinstance(x.func, ast.Attribute) and x.func.attr == "append" and x.args and isinstance(x.args[0], (ast.ListComp, ast.List, ast.Name)):
-            anc = getattr(x, "_parent", None)
-            while anc is not None and not isinstance(anc, (ast.For, ast.FunctionDef)):
-                anc = getattr(anc, "_parent", None)
-            if isinstance(anc, ast.For) and "episodes" in ast.unparse(anc.iter):
-                grouped = True if grouped is None else grouped
-        if isinstance(x, ast.Call) and isinstance(x.func, ast.Attribute) and x.func.attr == "extend":
-            grouped = False
-    if grouped is None:
-        raise AnalysisError("rl_blox.algorithm.reinforce.EpisodeDataset._rewards: structure of the returned collection not recognised")
-    ck.ob("R4-per-trajectory", cq, "rewards-grouped-by-episode", grouped, f"{short(rets_[0].value, 80) if rets_ else None}", "" if grouped else "_rewards must return one list per episode (a flat list makes the reward-to-go run across episode boundaries)", loc(rw._module, rw))
+    if per_episode is None:
+        raise AnalysisError(f"{cq}: application of discounted_reward_to_go `{short(call, 70)}` not recognised")
+    grouped_here = None
+    if per_episode:
+        src = it_src
+        if isinstance(src, ast.Name):
+            ds = mcfg.defs_of(at, src.id)
+            src = ds[0].value if len(ds) == 1 and ds[0].kind == "assign" and ds[0].value is not None else None
+        is_rewards = isinstance(src, ast.Call) and isinstance(src.func, ast.Attribute) and isinstance(src.func.value, ast.Name) and src.func.value.id == "self" and src.func.attr == "_rewards" and not src.args and not src.keywords
+        if not is_rewards:
+            grouped_here = _comp_grouping(src) if src is not None else None       # the collection written out in place
+            if grouped_here is None:
+                raise AnalysisError(f"{cq}: reward-to-go is computed over `{short(it_src, 60)}` (unrecognised idiom)")
+    ok = bool(per_episode)
+    ck.ob("R4-per-trajectory", cq, "per-episode-returns", ok, f"{short(par) if par is not None else None}", "" if ok else "reward-to-go must be computed per episode (one call per episode's reward list)", loc(mmi, m[1]))
+    if not per_episode:
+        return
+    rwm = repo.method("rl_blox.algorithm.reinforce.EpisodeDataset", "_rewards")
+    if grouped_here is None:
+        ck.need(rwm is not None, "rl_blox.algorithm.reinforce.EpisodeDataset._rewards not found")
+        rw = rwm[1]
+        # _rewards returns one inner list per episode: nested comprehension / loop appending an inner list; a comprehension with two
+        # generators, or extending the result with the steps, flattens the episodes
+        grouped = _rewards_grouping(nf, rw)
+        shown_, where_ = next((short(x.value, 80) for x in ast.walk(rw) if isinstance(x, ast.Return) and x.value is not None), None), loc(rw._module, rw)
+        if grouped is None:
+            raise AnalysisError("rl_blox.algorithm.reinforce.EpisodeDataset._rewards: structure of the returned collection not recognised")
+    else:
+        grouped, shown_, where_ = grouped_here, short(it_src, 80), loc(mmi, call)
+    ck.ob("R4-per-trajectory", cq, "rewards-grouped-by-episode", grouped, f"{shown_}", "" if grouped else "_rewards must return one list per episode (a flat list makes the reward-to-go run across episode boundaries)", where_)
+
+
+_LAYOUT_OPS = ("T(", "transpose(", "swapaxes(", "moveaxis(", "permute_dims(", "einsum(", "rearrange(")
+
+
+def _axes_of(nf, e, sc, at):
+    """in_axes as written: an int / None for all arguments, or a list of them per argument; "?" when not read."""
+    if e is None:
+        return 0
+    if isinstance(e, ast.BinOp) and isinstance(e.op, ast.Mult):
+        seq, k = (e.left, e.right) if isinstance(e.left, (ast.Tuple, ast.List)) else (e.right, e.left)
+        kp = nf.poly(k, sc, at)
+        inner = _axes_of(nf, seq, sc, at) if isinstance(seq, (ast.Tuple, ast.List)) else "?"
+        if isinstance(inner, list) and kp.is_const() and kp.const_value().denominator == 1 and 0 <= kp.const_value() <= 16:
+            return inner * int(kp.const_value())
+        return "?"
+    p = nf.poly(e, sc, at)
+
+    def one(x):
+        if x.is_const() and x.elems is None and x.const_value().denominator == 1:
+            return int(x.const_value())
+        return None if x.canon() == "None" else "?"
+    if p.elems is not None:
+        out = [one(x) for x in p.elems]
+        return "?" if "?" in out else out
+    return one(p)
+
+
+def _buffer_field(p: Poly, owner: str):
+    import re
+    m = re.fullmatch(re.escape(owner) + r"\.buffer\['(\w+)'\]", p.canon()) if p.elems is None else None
+    return m.group(1) if m else None
+
+
+def _values_kind(nf, p: Poly, VF: str, RB: str):
+    """How the critic's values reach the per-environment GAE: "ok" - as a (T, N) array; "flat" - still merged over (T, N); "swapped" -
+    reshaped to (N, T); None - not read."""
+    def vf_call(x):
+        m_ = nf.meta.get(x.single_atom() or "", {})
+        return m_ if m_.get("fn") == VF and len(m_.get("args", [])) == 1 and not m_.get("kws") else None
+    f, m = _fn_of(nf, p)
+    if f == "reshape" and len(m.get("args", [])) >= 2 and not m.get("kws"):
+        inner, dims = m["args"][0], m["args"][1:]
+        if len(dims) == 1 and dims[0].elems is not None:
+            dims = dims[0].elems
+        if vf_call(inner) is None:
+            return None
+        dtx = [d_.canon() for d_ in dims]
+        if len(dtx) == 2 and all(x[:-3].endswith(".shape") and x[:-3] == dtx[0][:-3] for x in dtx):
+            ax = (dtx[0][-3:], dtx[1][-3:])
+            return "ok" if ax == ("[0]", "[1]") else ("swapped" if ax == ("[1]", "[0]") else None)
+        if len(dtx) == 1 and dtx[0].endswith(".shape") and _buffer_field(Poly.atom(dtx[0][:-6]), RB) in ("rewards", "terminations", "truncations"):
+            return "ok"
+        return None
+    m = vf_call(p)
+    if m is not None:
+        arg = m["args"][0]
+        fa, ma = _fn_of(nf, arg)
+        if fa == "reshape" and len(ma.get("args", [])) >= 2 and ma["args"][1].is_const() and ma["args"][1].const_value() == -1:
+            return "flat"
+        if _buffer_field(arg, RB) == "obs":
+            return "ok"
+    return None
+
+
+def _shifted_kind(nf, p: Poly, vals, VF: str, LO: str):
+    """Successor values: True - `vals[1:]` followed along time by the critic's value of the last observation; False - another window of
+    the same values / another axis; None - not read.  With ``vals`` None the head only has to be a `[1:]` window of something."""
+    f, m = _fn_of(nf, p)
+    args, kws = m.get("args", []), m.get("kws", {})
+    if f not in ("concatenate", "vstack") or not args or args[0].elems is None or len(args[0].elems) != 2 or (set(kws) - {"axis"}) or len(args) > 2:
+        return None
+    axis = kws.get("axis", args[1] if len(args) == 2 else Poly.const(0))
+    if f == "vstack" and (kws or len(args) != 1):
+        return None
+    if not axis.is_const():
+        return None
+    head, tail = args[0].elems
+    fh, mh = _fn_of(nf, head)
+    if fh != "subscript" or not mh.get("args") or (vals is not None and mh["args"][0] != vals):
+        return None
+    window = head.single_atom()[len(mh["args"][0].canon()):]
+    if _unread(tail) or f"{VF}({LO})" not in tail.canon():
+        return None
+    if window == "[1:]" and axis.const_value() == 0:
+        return True
+    import re
+    return False if re.fullmatch(r"\[-?\d*:-?\d*\]", window) else None
 
 
 def r4_callsites(ck, repo, nf):
     gq = "rl_blox.blox.gae.compute_gae"
+    gfn = repo.func(gq)
+    gps = positional_params(gfn)
     sites = []
     for qual, fn, mi in repo.all_functions():
         for c in ast.walk(fn):
-            if isinstance(c, ast.Call) and isinstance(c.func, ast.Name) and repo.resolve_name(mi, c.func.id) == gq:
+            if isinstance(c, ast.Call) and isinstance(c.func, (ast.Name, ast.Attribute)) and repo.resolve_expr(mi, c.func) == gq:
                 # innermost function only
                 p = getattr(c, "_parent", None)
                 while p is not None and not isinstance(p, (ast.FunctionDef, ast.AsyncFunctionDef)):
@@ -341,88 +729,164 @@ def r4_callsites(ck, repo, nf):
     ck.floor("compute_gae-call-sites", len(sites), 2)
     for qual, fn, mi, c in sites:
         where = loc(mi, c)
+        if any(isinstance(a_, ast.Starred) for a_ in c.args) or any(k_.arg is None for k_ in c.keywords) or len(gps) < 6:
+            raise AnalysisError(f"{qual}: `{short(c, 70)}` passes packed arguments (unrecognised form)")
+        if any(isinstance(a_, ast.Lambda) for a_ in _ancestors(c)):
+            raise AnalysisError(f"{qual}: compute_gae is called inside a lambda `{short(c, 60)}` (unrecognised form)")
         if "<locals>" in qual:
-            # must be applied under vmap over the environment axis
-            outer_q = qual.split(".<locals>.")[0]
-            ofn = repo.func(outer_q)
-            ocfg = nf.cfg_of(ofn)
-            osc = Scope(ocfg, mi, _env(ofn), outer_q)
-            apps = [(n, x) for n in ocfg.nodes if n.ast is not None and n.kind == "stmt" for x in ast.walk(n.ast)
-                    if isinstance(x, ast.Call) and isinstance(x.func, ast.Call) and dotted(x.func.func) in ("jax.vmap", "nnx.vmap") and x.func.args and dotted(x.func.args[0]) == fn.name]
-            ok = len(apps) == 1
-            ck.ob("R4-per-trajectory", outer_q, "vmapped-per-environment", ok, f"{short(apps[0][1].func) if apps else None}", "" if ok else f"{fn.name} (which calls compute_gae) must be applied with jax.vmap over the environment axis", where)
-            if not ok:
-                continue
-            n, app = apps[0]
-            kw = {k.arg: k.value for k in app.func.keywords}
-            axes = ast.literal_eval(kw["in_axes"]) if "in_axes" in kw else None
-            ok = axes == (1, 1, 1, 1)
-            ck.ob("R4-per-trajectory", outer_q, "vmap-axis", ok, f"in_axes={axes}", "" if ok else "all four arguments must be mapped over axis 1 (the environment axis of (T, N) arrays)", loc(mi, app))
-            # inner call forwards its parameters in order
-            ip = positional_params(fn)
-            gfn = repo.func(gq)
-            gps = positional_params(gfn)
-            if any(isinstance(a_, ast.Starred) for a_ in c.args) or any(k_.arg is None for k_ in c.keywords) or len(gps) < 6 or len(ip) < 4:
-                raise AnalysisError(f"{outer_q}: `{short(c, 70)}` passes packed arguments (unrecognised form)")
-            bnd = bind_call(gfn, c)         # by the signature of compute_gae: positional or keyword
-            fwd = [dotted(bnd.get(p_)) if bnd.get(p_) is not None else None for p_ in gps[:4]]
-            if any(f_ is None for f_ in fwd):
-                raise AnalysisError(f"{outer_q}: `{short(c, 70)}` does not pass plain variables for the four sequences (unrecognised form)")
-            ok = fwd == ip[:4]
-            if not ok and set(fwd) != set(ip[:4]):
-                raise AnalysisError(f"{outer_q}: `{short(c, 70)}` forwards {fwd}, which are not the wrapper's four parameters (unrecognised form)")
-            ck.ob("R4-per-trajectory", outer_q, "forwarding", ok, f"compute_gae({', '.join(f'{p_}={f_}' for p_, f_ in zip(gps[:4], fwd))})", "" if ok else "rewards, values, next values and terminations must be forwarded in that order", where)
-            g = [dotted(bnd.get(p_)) if bnd.get(p_) is not None else None for p_ in gps[4:6]]
-            outer_params = param_names(repo.func(outer_q))
-            if any(x_ is None for x_ in g):
-                raise AnalysisError(f"{outer_q}: `{short(c, 70)}` does not pass plain variables for gamma / lambda (unrecognised form)")
-            # the discount and lambda of the routine: parameters of the enclosing routine, in their roles
-            want_g = [x_ for x_ in outer_params if x_ in g]
-            ok = len(set(g)) == 2 and all(x_ in outer_params for x_ in g) and (g == want_g or [outer_params.index(x_) for x_ in g] == sorted(outer_params.index(x_) for x_ in g))
-            ck.ob("R4-per-trajectory", outer_q, "gamma-lambda", ok, f"gamma <- {g[0]}, lmbda <- {g[1]}", "" if ok else "gamma and lambda must be passed in their roles (not swapped, not the same value twice)", where)
-            # arguments of the vmapped call
-            names = ["rewards", "values", "next values", "terminations"]
-            vals = [nf.poly(a, osc, n.id).canon() for a in app.args]
-            want = ["rollout_buffer.buffer['rewards']", "reshape(value_function(reshape(rollout_buffer.buffer['obs'], -1, *rollout_buffer.buffer['obs'].shape[2:])), rollout_buffer.buffer['obs'].shape[:2][0], rollout_buffer.buffer['obs'].shape[:2][1])", None, "rollout_buffer.buffer['terminations']"]
-            ok = len(vals) == 4 and vals[0] == want[0] and vals[3] == want[3]
-            ck.ob("R4-per-trajectory", outer_q, "reward-termination-roles", ok, f"rewards <- {vals[0][:50]}, terminations <- {vals[3][:50] if len(vals) > 3 else None}",
-                  "" if ok else "the vmapped GAE must receive the buffer's rewards and terminations", loc(mi, app))
-            # values un-merged to (T, N) and successor values = values shifted by one step + bootstrap of the last observation
-            v, nv = vals[1], vals[2]
-            # structural reading: reshape(value_function(<obs with the two leading axes merged>), T, N) with (T, N) the leading axes of the observations
-            vp = nf.poly(app.args[1], osc, n.id) if len(app.args) > 1 else None
-            mv = nf.meta.get(vp.single_atom() or "", {}) if vp is not None else {}
-            ok = False
-            if mv.get("fn", "").split(".")[-1] == "reshape" and len(mv.get("args", [])) >= 2:
-                inner, dims = mv["args"][0], mv["args"][1:]
-                if len(dims) == 1 and dims[0].elems is not None:
-                    dims = dims[0].elems
-                dtx = [d_.canon() for d_ in dims]
-                ok = inner.canon().startswith("value_function(") and len(dtx) == 2 and dtx[0].endswith(".shape[0]") and dtx[1].endswith(".shape[1]") and dtx[0][:-3] == dtx[1][:-3]
-            elif vp is not None and not v.startswith("value_function("):
-                raise AnalysisError(f"{outer_q}: values passed to the per-environment GAE `{v[:100]}` (unrecognised form)")
-            ck.ob("R4-per-trajectory", outer_q, "values-unmerged", ok, f"values = {v[:110]}", "" if ok else "values computed on the flattened batch must be reshaped back to (T, N) before the per-environment GAE", loc(mi, app))
-            ok = nv.startswith("concatenate((") and "[1:]" in nv and "expand_dims(value_function(last_observation), 0)" in nv and "axis=0" in nv
-            ck.ob("R4-per-trajectory", outer_q, "successor-values-shifted", ok, f"next_values = {nv[:150]}", "" if ok else "successor values must be values[1:] followed by the bootstrap value of the last observation along time", loc(mi, app))
+            _vmapped_site(ck, repo, nf, qual, fn, mi, c, gfn, gps)
         else:
             # direct call on rollout data: provenance through the callers must not contain an environment-merging reshape
-            merged = _merged_provenance(repo, nf, qual, fn, mi, c)
+            merged = _merged_provenance(repo, nf, qual, fn, mi, c, gfn, gps)
             ok = not merged
             ck.ob("R4-per-trajectory", qual, "no-merged-env-axis", ok, f"`{short(c, 80)}`",
                   "" if ok else f"the arguments are the environment-major *flattened* rollout ({merged}): the reverse scan runs across environment boundaries, so an "
                                 "environment's advantages depend on the next environment's rewards", where)
 
 
-def _merged_provenance(repo, nf, qual, fn, mi, call):
+def _vmapped_site(ck, repo, nf, qual, fn, mi, c, gfn, gps):
+    """compute_gae called in a nested wrapper: the wrapper must be applied under vmap over the environment axis of (T, N) data."""
+    where = loc(mi, c)
+    outer_q = qual.split(".<locals>.")[0]
+    ofn = repo.func(outer_q)
+    ocfg = nf.cfg_of(ofn)
+    osc = Scope(ocfg, mi, _env(ofn), outer_q)
+    op = positional_params(ofn)
+    if len(op) < 6:
+        raise AnalysisError(f"{outer_q}: signature changed (anchor vanished)")
+    RB, VF, LO, G_OUT, L_OUT = op[0], op[1], op[2], op[4], op[5]       # roles by position of the recorded signature
+    # every use of the wrapper's name in the enclosing routine: mapped with vmap, called directly, or something else
+    vmapped, direct, other = [], [], []
+    for x in ast.walk(ofn):
+        if not (isinstance(x, ast.Name) and x.id == fn.name and isinstance(x.ctx, ast.Load)) or any(a_ is fn for a_ in _ancestors(x)):
+            continue
+        par = getattr(x, "_parent", None)
+        if isinstance(par, ast.Call) and par.func is x:
+            direct.append(par)
+        elif isinstance(par, ast.Call) and isinstance(par.func, (ast.Name, ast.Attribute)) and repo.resolve_expr(mi, par.func) in ("jax.vmap", "flax.nnx.vmap") and (par.args[:1] == [x]):
+            vmapped.append(par)
+        elif isinstance(par, ast.keyword) and par.arg in ("fun", "f") and isinstance(getattr(par, "_parent", None), ast.Call) and repo.resolve_expr(mi, par._parent.func) in ("jax.vmap", "flax.nnx.vmap"):
+            vmapped.append(par._parent)
+        else:
+            other.append(x)
+    if fn.decorator_list or other or (vmapped and direct) or len(vmapped) > 1 or not (vmapped or direct):
+        raise AnalysisError(f"{outer_q}: how `{fn.name}` (which calls compute_gae) is applied was not read (unrecognised form)")
+    ok = len(vmapped) == 1
+    if not ok:
+        # evidence for "not per environment": one plain call on whole arrays; a call per environment (in a loop / comprehension, on slices) is
+        # another way to keep the environments apart that this rule does not read
+        d0 = direct[0]
+        if len(direct) != 1 or any(isinstance(a_, (ast.For, ast.While, ast.ListComp, ast.GeneratorExp, ast.Lambda, ast.DictComp, ast.SetComp)) for a_ in _ancestors(d0) if a_ is not ofn and ofn in _ancestors(a_)) \
+                or any(isinstance(y, ast.Subscript) for a_ in list(d0.args) + [k_.value for k_ in d0.keywords] for y in ast.walk(a_)):
+            raise AnalysisError(f"{outer_q}: `{short(d0, 70)}` applies `{fn.name}` without vmap (unrecognised form)")
+    ck.ob("R4-per-trajectory", outer_q, "vmapped-per-environment", ok, f"{short(vmapped[0]) if vmapped else short(direct[0], 80)}", "" if ok else f"{fn.name} (which calls compute_gae) must be applied with jax.vmap over the environment axis", where)
+    if not ok:
+        return
+    vm = vmapped[0]
+    if any(isinstance(a_, ast.Starred) for a_ in vm.args) or any(k_.arg is None for k_ in vm.keywords):
+        raise AnalysisError(f"{outer_q}: `{short(vm, 70)}` passes packed arguments (unrecognised form)")
+    # the application of the mapped function: `vmap(f, ...)(args)` or a local holding `vmap(f, ...)` called once
+    apps = []
+    for n_ in ocfg.nodes:
+        if n_.ast is None or n_.kind != "stmt":
+            continue
+        for x in ast.walk(n_.ast):
+            if isinstance(x, ast.Call) and x.func is vm:
+                apps.append((n_, x))
+            elif isinstance(x, ast.Call) and isinstance(x.func, ast.Name):
+                ds = ocfg.defs_of(n_.id, x.func.id)
+                if len(ds) == 1 and ds[0].kind == "assign" and ds[0].value is vm:
+                    apps.append((n_, x))
+    if len(apps) != 1:
+        raise AnalysisError(f"{outer_q}: the vmapped `{fn.name}` is applied {len(apps)} times (unrecognised form)")
+    n, app = apps[0]
+    if any(isinstance(a_, ast.Starred) for a_ in app.args) or app.keywords:
+        raise AnalysisError(f"{outer_q}: `{short(app, 70)}` passes keyword / packed arguments to the mapped function (unrecognised form)")
+    axes_e = vm.args[1] if len(vm.args) > 1 else next((k_.value for k_ in vm.keywords if k_.arg == "in_axes"), None)
+    axes = _axes_of(nf, axes_e, osc, ocfg.node_of(vm).id)
+    if axes == "?" or (isinstance(axes, list) and len(axes) != len(app.args)):
+        raise AnalysisError(f"{outer_q}: in_axes of `{short(vm, 70)}` was not read (unrecognised form)")
+    # role -> wrapper parameter (binding of the inner call by the signature of compute_gae) -> argument of the mapped call
+    ip = positional_params(fn)
+    bnd = bind_call(gfn, c)
+    fwd = [dotted(bnd.get(p_)) if bnd.get(p_) is not None else None for p_ in gps[:4]]
+    if any(f_ is None or f_ not in ip for f_ in fwd) or len(app.args) > len(ip):
+        raise AnalysisError(f"{outer_q}: `{short(c, 70)}` does not forward the wrapper's parameters for the four sequences (unrecognised form)")
+    rebound = {x.id for x in ast.walk(fn) if isinstance(x, ast.Name) and isinstance(x.ctx, ast.Store)}
+    if rebound & set(fwd):
+        raise AnalysisError(f"{outer_q}: `{fn.name}` rebinds its parameters before forwarding them (unrecognised form)")
+    ok = len(set(fwd)) == 4
+    ck.ob("R4-per-trajectory", outer_q, "forwarding", ok, f"compute_gae({', '.join(f'{p_}={f_}' for p_, f_ in zip(gps[:4], fwd))})", "" if ok else "rewards, values, next values and terminations must each be forwarded to their own role (one sequence is used in two roles)", where)
+    if not ok:
+        return
+    idx = [ip.index(f_) for f_ in fwd]
+    if any(i_ >= len(app.args) for i_ in idx):
+        raise AnalysisError(f"{outer_q}: `{short(app, 70)}` does not pass the four sequences (unrecognised form)")
+    nfl = NF(repo, inline_depth=3)
+    nfl.keep_layout = {"reshape"}              # reshapes are part of what is decided here
+    vals = [nfl.poly(app.args[i_], osc, n.id) for i_ in idx]          # rewards, values, next values, terminations as the GAE receives them
+    role_axes = [axes[i_] if isinstance(axes, list) else axes for i_ in idx]
+    ok = role_axes == [1, 1, 1, 1]
+    if not ok and any(t_ in v_.canon() for v_ in vals for t_ in _LAYOUT_OPS):
+        raise AnalysisError(f"{outer_q}: in_axes={role_axes} on re-laid-out arrays `{short(app, 70)}` (unrecognised form)")
+    ck.ob("R4-per-trajectory", outer_q, "vmap-axis", ok, f"in_axes={tuple(role_axes)}", "" if ok else "all four arguments must be mapped over axis 1 (the environment axis of (T, N) arrays)", loc(mi, vm))
+    # gamma / lambda of the routine, in their roles
+    isc = Scope(nf.cfg_of(fn), mi, {**_env(fn), **{k_: v_ for k_, v_ in closure_env(nf, ofn, fn, mi, _env(ofn), outer_q).items() if k_ not in ip}, **{k_: v_ for k_, v_ in _env(ofn).items() if k_ not in ip and k_ not in rebound}}, qual)
+    g_e = [bnd.get(p_) for p_ in gps[4:6]]
+    if any(x_ is None for x_ in g_e):
+        raise AnalysisError(f"{outer_q}: `{short(c, 70)}` does not pass gamma / lambda (unrecognised form)")
+    at_c = isc.cfg.node_of(c).id
+    g = [nf.poly(x_, isc, at_c).canon() for x_ in g_e]
+    # a value the wrapper receives as a parameter is what the mapped call passes for it
+    g = [(nf.poly(app.args[ip.index(x_)], osc, n.id).canon() if ip.index(x_) < len(app.args) else x_) if x_ in ip else x_ for x_ in g]
+    ok = g == [G_OUT, L_OUT]
+    if not ok and not set(g) <= {G_OUT, L_OUT}:
+        raise AnalysisError(f"{outer_q}: `{short(c, 70)}` passes gamma <- {g[0][:30]}, lambda <- {g[1][:30]} (unrecognised form)")
+    ck.ob("R4-per-trajectory", outer_q, "gamma-lambda", ok, f"gamma <- {g[0]}, lmbda <- {g[1]}", "" if ok else "gamma and lambda must be passed in their roles (not swapped, not the same value twice)", where)
+    # what each role receives: the buffer's rewards / terminations, the critic's values as (T, N), the values shifted by one step
+    kinds = []
+    for v_ in vals:
+        bf = _buffer_field(v_, RB)
+        vk = _values_kind(nfl, v_, VF, RB)
+        kinds.append(f"buffer:{bf}" if bf else (f"values:{vk}" if vk else ("shifted" if _shifted_kind(nfl, v_, None, VF, LO) is not None else None)))
+    for v_ in vals:
+        if _unread(v_):
+            raise AnalysisError(f"{outer_q}: argument `{v_.canon()[:80]}` of the per-environment GAE (unrecognised form)")
+    ok = kinds[0] == "buffer:rewards" and kinds[3] == "buffer:terminations"
+    if not ok and (kinds[0] is None or kinds[3] is None):
+        raise AnalysisError(f"{outer_q}: rewards <- `{vals[0].canon()[:60]}`, terminations <- `{vals[3].canon()[:60]}` passed to the per-environment GAE (unrecognised form)")
+    ck.ob("R4-per-trajectory", outer_q, "reward-termination-roles", ok, f"rewards <- {vals[0].canon()[:50]}, terminations <- {vals[3].canon()[:50]}",
+          "" if ok else "the vmapped GAE must receive the buffer's rewards and terminations", loc(mi, app))
+    # values un-merged to (T, N) and successor values = values shifted by one step + bootstrap of the last observation
+    ok = kinds[1] == "values:ok"
+    if not ok and kinds[1] is None:
+        raise AnalysisError(f"{outer_q}: values passed to the per-environment GAE `{vals[1].canon()[:100]}` (unrecognised form)")
+    ck.ob("R4-per-trajectory", outer_q, "values-unmerged", ok, f"values = {vals[1].canon()[:110]}", "" if ok else "values computed on the flattened batch must be reshaped back to (T, N) before the per-environment GAE", loc(mi, app))
+    sh = _shifted_kind(nfl, vals[2], vals[1] if ok else None, VF, LO)
+    if sh is None and (kinds[2] is None or kinds[2] == "shifted"):
+        raise AnalysisError(f"{outer_q}: successor values passed to the per-environment GAE `{vals[2].canon()[:100]}` (unrecognised form)")
+    ok = sh is True
+    ck.ob("R4-per-trajectory", outer_q, "successor-values-shifted", ok, f"next_values = {vals[2].canon()[:150]}", "" if ok else "successor values must be values[1:] followed by the bootstrap value of the last observation along time", loc(mi, app))
+
+
+def _ancestors(x):
+    p = getattr(x, "_parent", None)
+    while p is not None:
+        yield p
+        p = getattr(p, "_parent", None)
+
+
+def _merged_provenance(repo, nf, qual, fn, mi, call, gfn, gps):
     """Follow parameter arguments of a compute_gae call to the callers; report a reshape(-1, ...) on the way."""
     params = set(param_names(fn))
-    names = [a.id for a in call.args if isinstance(a, ast.Name) and a.id in params]
+    bnd0 = bind_call(gfn, call)           # by the signature of compute_gae: positional or keyword
+    names = [a.id for a in (bnd0.get(p_) for p_ in gps[:4]) if isinstance(a, ast.Name) and a.id in params]
     if not names:
         return ""
     # callers of `fn`
     for cq, cfn, cmi in repo.all_functions():
         for c in ast.walk(cfn):
-            if isinstance(c, ast.Call) and isinstance(c.func, ast.Name) and repo.resolve_name(cmi, c.func.id) == qual:
+            if isinstance(c, ast.Call) and isinstance(c.func, (ast.Name, ast.Attribute)) and repo.resolve_expr(cmi, c.func) == qual:
                 b = bind_call(fn, c)
                 ccfg = nf.cfg_of(cfn)
                 try:
@@ -454,61 +918,158 @@ def _merged_provenance(repo, nf, qual, fn, mi, call):
     return ""
 
 
+def _has_product(nf, p: Poly, a1: str, a2: str, depth: int = 0) -> bool:
+    """Some factor of ``p`` (at any call depth) is a product containing both atoms."""
+    if p is None or depth > 8:
+        return False
+    for x in (p.elems or []):
+        if _has_product(nf, x, a1, a2, depth + 1):
+            return True
+    for mono in p.terms:
+        names = {a for a, _ in mono}
+        if a1 in names and a2 in names:
+            return True
+        for a in names:
+            m = nf.meta.get(a, {})
+            for x in list(m.get("args", [])) + list(m.get("kws", {}).values()):
+                if _has_product(nf, x, a1, a2, depth + 1):
+                    return True
+    return False
+
+
 def r5_encoder(ck, repo, nf):
     q = "rl_blox.blox.embedding.model_based_encoder.model_based_encoder_loss"
     fn = repo.func(q)
     mi = fn._module
+    op = positional_params(fn)
+    ck.need(len(op) >= 8, f"{q}: signature changed (anchor vanished)")
+    ENC, ENC_T, BT, WEIGHTS = op[0], op[1], op[3], op[5:8]           # roles by position of the recorded signature
     body = next((n for n in ast.walk(fn) if isinstance(n, ast.FunctionDef) and n is not fn), None)
     ck.need(body is not None, f"{q}: roll-out body not found (anchor vanished)")
     body._module = mi
     where = loc(mi, body)
-    cfg = nf.cfg_of(body)
     bp = positional_params(body)
+    ck.need(len(bp) >= 8, f"{q}: roll-out body must take (carry, encoder, bins, batch, next_zs, not_done, environment_terminates, t)")
+    ND, TT = bp[5], bp[7]
     env = {p: Poly.atom(p, {p}, {p}) for p in bp}
-    nf2 = NF(repo, no_inline={"rl_blox.blox.losses.masked_mse_loss", "rl_blox.blox.preprocessing.two_hot_cross_entropy_loss", "rl_blox.blox.preprocessing.two_hot_decoding"})
+    mq = "rl_blox.blox.losses.masked_mse_loss"
+    nf2 = NF(repo, no_inline={mq, "rl_blox.blox.preprocessing.two_hot_cross_entropy_loss", "rl_blox.blox.preprocessing.two_hot_decoding"})
     sc = Scope(nf2.cfg_of(body), mi, env, q + ".<locals>." + body.name)
     rets = [n for n in sc.cfg.nodes if n.kind == "stmt" and isinstance(n.ast, ast.Return)]
-    ck.need(len(rets) == 1, f"{q}: roll-out body has {len(rets)} returns")
+    ck.need(len(rets) == 1 and rets[0].ast.value is not None, f"{q}: roll-out body has {len(rets)} returns")
     rp = nf2.poly(rets[0].ast.value, sc, rets[0].id)
-    ck.need(rp.elems is not None and len(rp.elems) == 5 and rp.elems[0].elems is not None, f"{q}: roll-out body must return ((zs, mask), dyn, rew, done, rew_mse)")
+    shape_msg = f"{q}: roll-out body must return ((zs, mask), dyn, rew, done, rew_mse)"
+    ck.need(rp.elems is not None and len(rp.elems) in (2, 5), shape_msg)
+    carry_c, carry_f = _components(nf2, rp.elems[0])
+    ck.need(carry_c is not None and len(carry_c) == 2, shape_msg)
+    if carry_f is not None:
+        # the carry is a record (NamedTuple): reading a field of the carried-in record is reading that component (same leaf as carry[i])
+        comp = {f_: Poly.atom(f"{bp[0]}[{i_}]", {f"{bp[0]}[{i_}]"}, {f"{bp[0]}[{i_}]"}) for i_, f_ in enumerate(carry_f)}
+        nf2.meta[bp[0]] = {"deps": frozenset({bp[0]}), "gdeps": frozenset({bp[0]}), "fn": "", "args": [], "kws": {}, "record": comp}
+        rp = nf2.poly(rets[0].ast.value, sc, rets[0].id)
+        carry_c, _f = _components(nf2, rp.elems[0])
+        ck.need(carry_c is not None and len(carry_c) == 2, shape_msg)
+    out_fields = None
+    if len(rp.elems) == 5:
+        outs = list(rp.elems[1:])
+    else:
+        outs, out_fields = _components(nf2, rp.elems[1])       # the four terms as one tuple / record
+        ck.need(outs is not None and len(outs) == 4, shape_msg)
     carry_in = f"{bp[0]}[1]"
-    mask_out = rp.elems[0].elems[1]
-    want = nf2.poly(parse_expr(f"not_done[:, t] * {bp[0]}[1]"), Scope(None, mi, env, q), None)
-    ok = mask_out == want
-    ck.ob("R5-post-terminal-mask", q, "mask-update", ok, f"mask' = {mask_out.canon()[:90]}", "" if ok else "the carried mask must become not_done[:, t] * mask (cumulative: nothing after the first terminated step counts)", where)
+    flag = f"{ND}[:, {TT}]"
+    mask_out = carry_c[1]
+    want = nf2.poly(parse_expr(f"{ND}[:, {TT}] * {bp[0]}[1]"), Scope(None, mi, env, q), None)
+    _decide(ck, "R5-post-terminal-mask", q, "mask-update", mask_out, want, f"mask' = {mask_out.canon()[:90]}", "the carried mask must become not_done[:, t] * mask (cumulative: nothing after the first terminated step counts)", where, atoms=())
     names = ["dynamics", "reward", "done", "reward_mse"]
     for k, nm in enumerate(names, start=1):
-        txt = rp.elems[k].canon()
-        uses_in = carry_in in txt
-        uses_out = want.canon() in txt or f"not_done[:, t]*{carry_in}" in txt
+        term = outs[k - 1]
+        txt = term.canon()
+        # weighted by the mask carried in: the term depends on it (no dataflow from the mask to the term is the evidence for "unmasked")
+        # and no factor of it is the mask already multiplied with this step's flag
+        uses_in = carry_in in term.deps
+        uses_out = _has_product(nf2, term, flag, carry_in)
         ok = uses_in and not uses_out
+        if not uses_in and _unread(term):
+            raise AnalysisError(f"{q}: loss term {nm} = `{txt[:100]}` (unrecognised form)")
         ck.ob("R5-post-terminal-mask", q, f"term-masked:{nm}", ok, f"{nm} = {txt[:130]}",
               "" if ok else ("the term is not weighted by the termination mask: steps after a terminated step still contribute" if not uses_in else "the term uses the mask *after* it was updated with this step's termination flag"), where)
-    # masked_mse_loss receives the mask as third argument
+    # masked_mse_loss receives the mask carried in
+    mfn = repo.func(mq)
+    mps = positional_params(mfn)
+    ck.need(len(mps) >= 3, f"{mq}: signature changed (anchor vanished)")
     for c in ast.walk(body):
-        if isinstance(c, ast.Call) and dotted(c.func) == "masked_mse_loss":
+        if isinstance(c, ast.Call) and isinstance(c.func, (ast.Name, ast.Attribute)) and repo.resolve_expr(mi, c.func) == mq:
             at = sc.cfg.node_of(c).id
-            b = bind_call(repo.func("rl_blox.blox.losses.masked_mse_loss"), c)
-            m = nf2.poly(b["mask"], sc, at).canon() if "mask" in b else None
+            b = bind_call(mfn, c)
+            if mps[2] not in b or any(isinstance(a_, ast.Starred) for a_ in c.args) or any(k_.arg is None for k_ in c.keywords):
+                raise AnalysisError(f"{q}: `{short(c, 70)}` (unrecognised form)")
+            mp = nf2.poly(b[mps[2]], sc, at)
+            m = mp.canon()
             ok = m == carry_in
-            ck.ob("R5-post-terminal-mask", q, f"mask-arg:{short(b.get('predictions'), 30) if b.get('predictions') is not None else '?'}", ok, f"mask <- {m}", "" if ok else "masked_mse_loss must receive the carried-in termination mask", loc(mi, c))
+            if not ok and not (mp == want or _has_product(nf2, mp, flag, carry_in) or (carry_in not in mp.deps and not _unread(mp))):
+                raise AnalysisError(f"{q}: mask `{m[:80]}` passed to masked_mse_loss (unrecognised form)")
+            ck.ob("R5-post-terminal-mask", q, f"mask-arg:{short(b.get(mps[0]), 30) if b.get(mps[0]) is not None else '?'}", ok, f"mask <- {m}", "" if ok else "masked_mse_loss must receive the carried-in termination mask", loc(mi, c))
     # the initial mask is all ones and the initial latent state is the encoding of the first observation
     ocfg = nf.cfg_of(fn)
     osc = Scope(ocfg, mi, _env(fn), q)
     apps = [(n, c) for n in ocfg.nodes if n.ast is not None and n.kind == "stmt" for c in ast.walk(n.ast) if isinstance(c, ast.Call) and dotted(c.func) == body.name]
     ck.need(len(apps) == 1, f"{q}: roll-out call not found")
     n, app = apps[0]
-    init = nf.poly(app.args[0], osc, n.id)
-    ok = init.elems is not None and len(init.elems) == 2 and init.elems[1].canon().startswith("ones_like(") and "encode_zs(batch.observation[:, 0])" in init.elems[0].canon().replace("batch[0]", "batch.observation")
+    if any(isinstance(a_, ast.Starred) for a_ in app.args) or any(k_.arg is None for k_ in app.keywords):
+        raise AnalysisError(f"{q}: `{short(app, 70)}` passes packed arguments (unrecognised form)")
+    ab = bind_call(body, app)             # by the signature of the roll-out body: positional or keyword
+    if bp[0] not in ab or ND not in ab:
+        raise AnalysisError(f"{q}: `{short(app, 70)}` does not pass the carry / not_done (unrecognised form)")
+    init = nf.poly(ab[bp[0]], osc, n.id)
+    init_c, _f = _components(nf, init)
+    if init_c is None or len(init_c) != 2 or _unread(init):
+        raise AnalysisError(f"{q}: initial carry `{init.canon()[:100]}` (unrecognised form)")
+    import re
+    m0, _filled = _fill_value(nf, init_c[1])
+    f0, mz = _fn_of(nf, init_c[0])
+    z_arg = mz["args"][0].canon() if len(mz.get("args", [])) == 1 and not mz.get("kws") else ""
+    first_obs = re.fullmatch(re.escape(BT) + r"(?:\.observation|\[0\])\[:, 0\]", z_arg) is not None
+    ok = m0.is_const() and m0.const_value() == 1 and mz.get("fn") == f"{ENC}.encode_zs" and first_obs
+    if not ok:
+        evidence = (m0.is_const() and m0.const_value() != 1) or mz.get("fn") == f"{ENC_T}.encode_zs" \
+            or (mz.get("fn") == f"{ENC}.encode_zs" and re.fullmatch(re.escape(BT) + r"(?:\.\w+|\[\d\])(?:\[:, -?\d+\])?", z_arg) is not None and not first_obs)
+        if not evidence:
+            raise AnalysisError(f"{q}: initial carry `{init.canon()[:100]}` (unrecognised form)")
     ck.ob("R5-post-terminal-mask", q, "initial-carry", ok, f"({init.canon()[:130]}", "" if ok else "roll-out must start from encode_zs(observation[:, 0]) with an all-ones mask", loc(mi, app))
-    nd = nf.poly(app.args[5], osc, n.id).canon() if len(app.args) > 5 else ""
-    ok = nd in ("1 - batch.terminated", "1 - batch[4]")
-    ck.ob("R5-post-terminal-mask", q, "not-done-definition", ok, f"not_done = {nd}", "" if ok else "not_done must be 1 - terminated (truncation does not cut the learning signal)", loc(mi, app))
+    ndp = nf.poly(ab[ND], osc, n.id)
+    wsc = Scope(None, mi, _env(fn), q)
+    wants = [nf.poly(parse_expr(f"1 - {BT}.terminated"), wsc, None), nf.poly(parse_expr(f"1 - {BT}[4]"), wsc, None)]
+    if ndp in wants:
+        ck.ob("R5-post-terminal-mask", q, "not-done-definition", True, f"not_done = {ndp.canon()}", "", loc(mi, app))
+    else:
+        _decide(ck, "R5-post-terminal-mask", q, "not-done-definition", ndp, wants[0], f"not_done = {ndp.canon()[:100]}", "not_done must be 1 - terminated (truncation does not cut the learning signal)", loc(mi, app), extra=("truncated",),
+                atoms=(f"{BT}.truncated", f"{BT}[5]", f"{BT}[4]", f"{BT}.terminated"))
     tot = nf.return_poly(q, _env(fn))
-    if tot.elems is not None:
-        t0 = tot.elems[0]
-        ok = len(t0.terms) == 3 and all(w in t0.canon() for w in ("dynamics_weight", "reward_weight", "done_weight")) and all(c == 1 for c in t0.terms.values())
-        ck.ob("R5-post-terminal-mask", q, "weighted-sum", ok, f"total = {t0.canon()[:150]}", "" if ok else "total loss must be w_dyn*sum(dyn) + w_rew*sum(rew) + w_done*sum(done)", where)
+    if tot.elems is None or not tot.elems:
+        raise AnalysisError(f"{q}: result `{tot.canon()[:80]}` is not (total, components) (unrecognised form)")
+    t0 = tot.elems[0]
+    # total = w_dyn * sum(dyn) + w_rew * sum(rew) + w_done * sum(done): every monomial is one weight times the summed roll-out output of its
+    # position (outputs 1, 2, 3 of the roll-out)
+    pairs, readable = [], True          # (the roll-out's own arguments inside the summed atoms are not part of this reading)
+    for mono, coef in t0.terms.items():
+        ws = [(a, k) for a, k in mono if a in WEIGHTS]
+        rest = [(a, k) for a, k in mono if a not in WEIGHTS]
+        out_k = None
+        if len(rest) == 1 and rest[0][1] == 1:
+            fr, mr = _fn_of(nf, Poly.atom(rest[0][0]))
+            src = mr["args"][0].single_atom() if fr == "sum" and len(mr.get("args", [])) == 1 and not mr.get("kws") else None
+            if src is not None and f".<locals>.{body.name}(" in src:
+                mm = re.search(r"\)\[(\d)\]$", src) if out_fields is None and len(rp.elems) == 5 else None
+                mn = re.search(r"\)\[1\]\[(\d)\]$", src) if len(rp.elems) == 2 else None
+                mf = re.search(r"\)\[1\]\.(\w+)$", src) if out_fields is not None else None
+                out_k = int(mm.group(1)) if mm else (int(mn.group(1)) + 1 if mn else (out_fields.index(mf.group(1)) + 1 if mf and mf.group(1) in out_fields else None))
+        if out_k is None:
+            readable = False
+        pairs.append((coef, ws, out_k))
+    ok = readable and len(pairs) == 3 and all(coef == 1 and len(ws) == 1 and ws[0][1] == 1 and out_k == WEIGHTS.index(ws[0][0]) + 1 for coef, ws, out_k in pairs) and len({ws[0][0] for _, ws, _ in pairs}) == 3
+    if not ok and not readable:
+        raise AnalysisError(f"{q}: total loss `{t0.canon()[:100]}` (unrecognised form)")
+    ck.ob("R5-post-terminal-mask", q, "weighted-sum", ok, f"total = {t0.canon()[:150]}", "" if ok else "total loss must be w_dyn*sum(dyn) + w_rew*sum(rew) + w_done*sum(done)", where)
 
 
 def r5_shapes(ck, repo, nf):
@@ -516,19 +1077,30 @@ def r5_shapes(ck, repo, nf):
     q = "rl_blox.blox.embedding.model_based_encoder.model_based_encoder_loss"
     fn = repo.func(q)
     mi = fn._module
+    op = positional_params(fn)
+    ck.need(len(op) >= 4, f"{q}: signature changed (anchor vanished)")
+    ENC, ENC_T, BINS, BT = op[:4]          # roles by position of the recorded signature
     se = ShapeEngine(repo)
     H = "$encoder_horizon"
-    senv = {"batch.observation": ("B", H, "O"), "batch.action": ("B", H, "A"), "batch.reward": ("B", H), "batch.next_observation": ("B", H, "O"), "batch.terminated": ("B", H),
-            "batch.truncated": ("B", H), "the_bins": ("K",)}
-    se.module_out = {"encoder.encode_zs": "Z", "encoder_target.encode_zs": "Z", "encoder_target.zs": "Z"}
+    senv = {f"{BT}.observation": ("B", H, "O"), f"{BT}.action": ("B", H, "A"), f"{BT}.reward": ("B", H), f"{BT}.next_observation": ("B", H, "O"), f"{BT}.terminated": ("B", H),
+            f"{BT}.truncated": ("B", H), BINS: ("K",)}
+    se.module_out = {f"{ENC}.encode_zs": "Z", f"{ENC_T}.encode_zs": "Z", f"{ENC_T}.zs": "Z"}
     se.analyse(fn, mi, q, senv)
+    nested = {x.name for x in ast.walk(fn) if isinstance(x, ast.FunctionDef) and x is not fn}
+    if se.alarms and any(isinstance(x, ast.Call) and isinstance(x.func, ast.Name) and x.func.id in nested and x.keywords for x in ast.walk(fn)):
+        # the shape engine binds the arguments of the scanned roll-out by position only
+        raise AnalysisError(f"{q}: the roll-out is called with keyword arguments (unrecognised form)")
     _shape_obligations(ck, se, "R5-post-terminal-mask", q, mi, fn, f"symbolic shapes with batch fields (B,{H},..), bins (K,)")
     # masked_mse_loss itself under its documented shapes
     mq = "rl_blox.blox.losses.masked_mse_loss"
     mfn = repo.func(mq)
+    mps = positional_params(mfn)
+    ck.need(len(mps) >= 3, f"{mq}: signature changed (anchor vanished)")
     se2 = ShapeEngine(repo)
-    r = se2.analyse(mfn, mfn._module, mq, {"predictions": ("B", "F"), "targets": ("B", "F"), "mask": ("B",)})
+    r = se2.analyse(mfn, mfn._module, mq, {mps[0]: ("B", "F"), mps[1]: ("B", "F"), mps[2]: ("B",)})
     _shape_obligations(ck, se2, "R5-post-terminal-mask", mq, mfn._module, mfn, "documented shapes (B,F),(B,F),(B,)")
+    if r is None or (isinstance(r, tuple) and any(d_ is None for d_ in r)):
+        raise AnalysisError(f"{mq}: the shape of the result was not inferred (unrecognised form)")
     ck.ob("R5-post-terminal-mask", mq, "scalar-result", r == (), f"result shape {r}", "" if r == () else "masked loss must reduce to a scalar", loc(mfn._module, mfn))
 
 
@@ -562,7 +1134,7 @@ def r6_env_index(ck, repo, nf):
                         continue
                     it = d.value
                     # `for i, x in enumerate(L)`: i is a position in L; L must not be a filtered list
-                    if isinstance(it, ast.Call) and dotted(it.func) == "enumerate" and d.path == (0,):
+                    if isinstance(it, ast.Call) and isinstance(it.func, ast.Name) and it.func.id == "enumerate" and it.args and d.path == (0,):
                         src = it.args[0]
                         if isinstance(src, ast.Name):
                             sd = cfg.defs_of(d.node, src.id)
@@ -571,13 +1143,19 @@ def r6_env_index(ck, repo, nf):
                             ok, why = False, "the index enumerates a *filtered* list (only finished environments), so it is not the environment's slot: the wrong environment's observation is overwritten"
                     # `for i, ... in L` with L = [(i, ...) for i, ... in enumerate(zip(...)) if f]: fine (index travels with the element)
                 ck.ob("R6-env-index", q, f"index:{idx.id}", ok, f"`{short(c, 60)}`", why, loc(mi, c))
-    ck.ob("R6-env-index", q, "sites", n_sites >= 1, f"{n_sites} per-environment write(s)", "" if n_sites else "final-observation substitution not found (anchor vanished)", loc(mi, fn))
+    if not n_sites:
+        # the substitution of the final observation is written in a way this rule does not read: nothing was checked, nothing is claimed
+        raise AnalysisError(f"{q}: no per-environment `.at[i].set(...)` write found (unrecognised form)")
+    ck.ob("R6-env-index", q, "sites", True, f"{n_sites} per-environment write(s)", "", loc(mi, fn))
 
 
 def run(ck, repo: Repo, tier: str):
     nf = NF(repo, inline_depth=3)
-    for group in (r1_gae, r2_nstep, r3_rtg, r4_callsites, r5_shapes, r5_encoder, r6_env_index):
+    for group in (r1_gae, r2_nstep, r3_rtg, r4_callsites, r5_shapes, r5_encoder, r6_env_index, r2_call_roles):
         ck.guard(group, ck, repo, nf)
+
+
+def r2_call_roles(ck, repo, nf):
     # mrq_loss hands the sampled rewards / terminations / gamma to the n-step return (binding by the callee's signature)
     q = "rl_blox.algorithm.mrq.mrq_loss"
     fn = repo.func(q)
@@ -586,17 +1164,34 @@ def run(ck, repo: Repo, tier: str):
     calls = [c for c in ast.walk(fn) if isinstance(c, ast.Call) and isinstance(c.func, (ast.Name, ast.Attribute)) and repo.resolve_expr(fn._module, c.func) == rq]
     if len(calls) != 1:
         raise AnalysisError(f"{q}: expected one call of discounted_n_step_return, found {len(calls)}")
+    if any(isinstance(a_, ast.Starred) for a_ in calls[0].args) or any(k_.arg is None for k_ in calls[0].keywords):
+        raise AnalysisError(f"{q}: `{short(calls[0], 70)}` passes packed arguments (unrecognised form)")
     b = bind_call(rfn, calls[0])
     cfgq = nf.cfg_of(fn)
     scq = Scope(cfgq, fn._module, {p: Poly.atom(p, {p}, {p}) for p in param_names(fn)}, q)
     atq = cfgq.node_of(calls[0]).id
     got = {k: (nf.poly(v, scq, atq).canon() if v is not None and not isinstance(v, list) else None) for k, v in b.items()}
     pr = positional_params(rfn)
-    ok = len(pr) >= 3 and got.get(pr[0]) in ("reward", "batch.reward", "batch[2]") and got.get(pr[1]) in ("terminated", "batch.terminated", "batch[4]") and got.get(pr[2]) == "gamma"
+    pq = positional_params(fn)
+    if len(pr) < 3 or len(pq) < 7 or any(got.get(p_) is None for p_ in pr[:3]):
+        raise AnalysisError(f"{q}: `{short(calls[0], 70)}` does not pass rewards, terminations and gamma (unrecognised form)")
+    BT, GM = pq[5], pq[6]                  # the sampled batch and the discount factor: by position of the recorded signature
+    import re
+    fields = ["observation", "action", "reward", "next_observation", "terminated", "truncated"]
+
+    def batch_field(txt):
+        m_ = re.fullmatch(re.escape(BT) + r"(?:\[(\d)\]|\.(\w+))", txt)
+        if not m_:
+            return None
+        return fields[int(m_.group(1))] if m_.group(1) is not None and int(m_.group(1)) < len(fields) else m_.group(2)
+    roles = [batch_field(got[pr[0]]), batch_field(got[pr[1]]), got[pr[2]]]
+    ok = roles == ["reward", "terminated", GM]
+    if not ok and (roles[0] is None or roles[1] is None or (roles[2] != GM and roles[2] not in pq)):
+        raise AnalysisError(f"{q}: discounted_n_step_return({', '.join(f'{k}={v}' for k, v in got.items())}) (unrecognised form)")
     ck.ob("R2-n-step", q, "call-roles", ok, f"discounted_n_step_return({', '.join(f'{k}={v}' for k, v in got.items())})", "" if ok else "the critic target must use the n-step return of the sampled rewards and terminations with the configured gamma", loc(fn._module, calls[0]))
 
 
-_G, _R, _RE, _E, _A2, _P = "rl_blox/blox/gae.py", "rl_blox/blox/return_estimates.py", "rl_blox/algorithm/reinforce.py", "rl_blox/blox/embedding/model_based_encoder.py", "rl_blox/algorithm/a2c.py", "rl_blox/algorithm/ppo.py"
+_G, _R, _RE, _E, _A2, _P, _M = "rl_blox/blox/gae.py", "rl_blox/blox/return_estimates.py", "rl_blox/algorithm/reinforce.py", "rl_blox/blox/embedding/model_based_encoder.py", "rl_blox/algorithm/a2c.py", "rl_blox/algorithm/ppo.py", "rl_blox/algorithm/mrq.py"
 MUTANTS = [
     {"id": "c07-gae-no-cut", "file": _G, "rule": "R1", "find": "        gae = delta + gamma * lmbda * (1 - terminated) * gae", "replace": "        gae = delta + gamma * lmbda * gae"},
     {"id": "c07-gae-delta-no-mask", "file": _G, "rule": "R1", "find": "        delta = reward + gamma * next_value * (1 - terminated) - value", "replace": "        delta = reward + gamma * next_value - value"},
@@ -622,6 +1217,21 @@ MUTANTS = [
     {"id": "c07-enc-done-rank1", "file": _E, "rule": "R5", "find": "                pred_done_t[:, jnp.newaxis],\n                target_done_t[:, jnp.newaxis],", "replace": "                pred_done_t,\n                target_done_t,"},
     {"id": "c07-enc-truncated-mask", "file": _E, "rule": "R5", "find": "    not_done = 1 - batch.terminated", "replace": "    not_done = 1 - batch.truncated"},
     {"id": "c07-masked-mse-no-newaxis", "file": "rl_blox/blox/losses.py", "rule": "R5", "find": "        * mask[:, jnp.newaxis]\n", "replace": "        * mask[jnp.newaxis]\n"},
+    {"id": "c07-gae-init-one", "file": _G, "rule": "R1", "find": "        calc_advantage_per_step,\n        0.0,\n", "replace": "        calc_advantage_per_step,\n        1.0,\n"},
+    {"id": "c07-nstep-init-shape", "file": _R, "rule": "R2", "find": "    n_step_return = jnp.zeros(reward.shape[0], dtype=jnp.float32)", "replace": "    n_step_return = jnp.zeros(reward.shape[1], dtype=jnp.float32)"},
+    {"id": "c07-nstep-while-start1", "file": _R, "rule": "R2", "find": "    for t in range(reward.shape[1]):\n        n_step_return += discount * reward[:, t]\n        discount *= gamma * (1 - terminated[:, t])\n", "replace": "    t = 1\n    while t < reward.shape[1]:\n        n_step_return += discount * reward[:, t]\n        discount *= gamma * (1 - terminated[:, t])\n        t += 1\n"},
+    {"id": "c07-mrq-truncated-as-terminated", "file": _M, "rule": "R2", "find": "    observation, action, reward, next_observation, terminated, _ = batch\n", "replace": "    observation, action, reward, next_observation, _, terminated = batch\n"},
+    {"id": "c07-rtg-result-not-reversed", "file": _RE, "rule": "R3", "find": "    return np.array(list(reversed(discounted_returns)))", "replace": "    return np.array(discounted_returns)"},
+    {"id": "c07-rtg-init", "file": _RE, "rule": "R3", "find": "    accumulated_return = 0.0\n", "replace": "    accumulated_return = 1.0\n"},
+    {"id": "c07-rtg-concatenated-episodes", "file": _RE, "rule": "R4", "find": "        returns = jnp.hstack(\n            [discounted_reward_to_go(R, gamma) for R in self._rewards()]\n        )", "replace": "        returns = jnp.asarray(discounted_reward_to_go(np.concatenate(self._rewards()), gamma))"},
+    {"id": "c07-rtg-rewards-flat", "file": _RE, "rule": "R4", "find": "            rewards.append([r for _, _, _, r in episode])", "replace": "            rewards.extend([r for _, _, _, r in episode])"},
+    {"id": "c07-a2c-gamma-lambda-swapped", "file": _A2, "rule": "R4", "find": "compute_gae(rewards, vals, next_val, terms, gamma, lmbda)", "replace": "compute_gae(rewards, vals, next_val, terms, lmbda, gamma)"},
+    {"id": "c07-a2c-values-flat", "file": _A2, "rule": "R4", "find": "    values = values.reshape(T, N)\n", "replace": ""},
+    {"id": "c07-a2c-forwarding-duplicate", "file": _A2, "rule": "R4", "find": "compute_gae(rewards, vals, next_val, terms, gamma, lmbda)", "replace": "compute_gae(rewards, vals, vals, terms, gamma, lmbda)"},
+    {"id": "c07-a2c-forwarding-swapped", "file": _A2, "rule": "R4", "find": "compute_gae(rewards, vals, next_val, terms, gamma, lmbda)", "replace": "compute_gae(rewards, next_val, vals, terms, gamma, lmbda)"},
+    {"id": "c07-enc-initial-mask-zeros", "file": _E, "rule": "R5", "find": "    prev_not_done = jnp.ones_like(not_done[:, 0])", "replace": "    prev_not_done = jnp.zeros_like(not_done[:, 0])"},
+    {"id": "c07-enc-mask-arg-fresh-ones", "file": _E, "rule": "R5", "find": "        dynamics_loss = masked_mse_loss(pred_zs_t, target_zs_t, prev_not_done)", "replace": "        dynamics_loss = masked_mse_loss(pred_zs_t, target_zs_t, jnp.ones(pred_zs_t.shape[0]))"},
+    {"id": "c07-enc-weights-swapped", "file": _E, "rule": "R5", "find": "        dynamics_weight * dynamics_loss\n        + reward_weight * reward_loss\n", "replace": "        dynamics_weight * reward_loss\n        + reward_weight * dynamics_loss\n"},
     {"id": "c07-ppo-filtered-index", "file": _P, "rule": "R6", "edits": [
         ("                (i, r, l, o)\n                for i, (r, l, o, f) in enumerate(\n                    zip(\n                        info[\"episode\"][\"r\"],\n                        info[\"episode\"][\"l\"],\n                        info[\"final_obs\"],\n                        info[\"_episode\"],\n                        strict=True,\n                    )\n                )\n                if f\n            ]\n            for i, r, l, o in finished_reward_len_obs:",
          "                (r, l, o)\n                for r, l, o, f in zip(\n                    info[\"episode\"][\"r\"],\n                    info[\"episode\"][\"l\"],\n                    info[\"final_obs\"],\n                    info[\"_episode\"],\n                    strict=True,\n                )\n                if f\n            ]\n            for i, (r, l, o) in enumerate(finished_reward_len_obs):")]},
@@ -631,4 +1241,41 @@ BENIGN = [
     {"id": "c07-b-nstep-explicit", "file": _R, "find": "        n_step_return += discount * reward[:, t]\n        discount *= gamma * (1 - terminated[:, t])", "replace": "        n_step_return = n_step_return + reward[:, t] * discount\n        discount = discount * (1 - terminated[:, t]) * gamma"},
     {"id": "c07-b-rtg-one-line", "file": _RE, "find": "        accumulated_return *= gamma\n        accumulated_return += r\n", "replace": "        accumulated_return = r + gamma * accumulated_return\n"},
     {"id": "c07-b-enc-rename-mask", "file": _E, "all": True, "find": "prev_not_done", "replace": "alive_mask"},
+    # the same computations written differently (audit of the rules for false-alarm risk): equivalent spellings of ranges / initial values / reversals,
+    # keyword and reordered arguments, locals and module-level constants, a while loop, a NamedTuple carry, renamed parameters of nested functions
+    {"id": "c07-b-gae-flip-module-record", "file": _G, "edits": [("@jax.jit\ndef compute_gae(", "GAE = namedtuple(\"GAE\", [\"advantages\", \"returns\"])\n\n\n@jax.jit\ndef compute_gae("),
+                                                                ("        calc_advantage_per_step,\n        0.0,\n        (rewards[::-1], values[::-1], next_values[::-1], terminateds[::-1]),\n    )\n    advantages = advantages[::-1]\n",
+                                                                 "        f=calc_advantage_per_step,\n        init=0.0,\n        xs=(jnp.flip(rewards, 0), jnp.flip(values, 0), jnp.flip(next_values, 0), jnp.flip(terminateds, 0)),\n    )\n    advantages = jnp.flip(advantages, axis=0)\n"),
+                                                                ("    return namedtuple(\"GAE\", [\"advantages\", \"returns\"])(advantages, returns)", "    return GAE(returns=returns, advantages=advantages)")]},
+    {"id": "c07-b-nstep-range-forms", "file": _R, "edits": [("    n_step_return = jnp.zeros(reward.shape[0], dtype=jnp.float32)\n    discount = jnp.ones(reward.shape[0], dtype=jnp.float32)\n    for t in range(reward.shape[1]):",
+                                                            "    batch_size, horizon = terminated.shape\n    n_step_return = jnp.zeros((batch_size,), dtype=jnp.float32)\n    discount = jnp.full(reward.shape[:1], 1.0, dtype=jnp.float32)\n    for t in range(0, horizon, 1):")]},
+    {"id": "c07-b-nstep-while", "file": _R, "find": "    for t in range(reward.shape[1]):\n        n_step_return += discount * reward[:, t]\n        discount *= gamma * (1 - terminated[:, t])\n",
+     "replace": "    horizon = reward.shape[1]\n    t = 0\n    while t < horizon:\n        n_step_return = n_step_return + discount * reward[:, t]\n        not_terminated = 1 - terminated[:, t]\n        discount = discount * (gamma * not_terminated)\n        t += 1\n"},
+    {"id": "c07-b-mrq-keywords", "file": _M, "find": "        reward, terminated, gamma\n    )", "replace": "        gamma=gamma, terminated=batch[4], reward=batch[2]\n    )"},
+    {"id": "c07-b-rtg-locals-and-constant", "file": _RE, "edits": [("def discounted_reward_to_go(rewards: list[float], gamma: float) -> np.ndarray:", "_ZERO_RETURN = 0.0\n\n\ndef discounted_reward_to_go(rewards: list[float], gamma: float) -> np.ndarray:"),
+                                                                   ("    accumulated_return = 0.0\n    for r in reversed(rewards):\n", "    accumulated_return = _ZERO_RETURN\n    backwards = list(reversed(rewards))\n    for r in backwards:\n"),
+                                                                   ("        discounted_returns.append(accumulated_return)\n    return np.array(list(reversed(discounted_returns)))", "        return_from_here = accumulated_return\n        discounted_returns.append(return_from_here)\n    in_time_order = discounted_returns[::-1]\n    return np.array(in_time_order)")]},
+    {"id": "c07-b-rtg-result-flipped-array", "file": _RE, "find": "    return np.array(list(reversed(discounted_returns)))", "replace": "    return np.array(discounted_returns)[::-1]"},
+    {"id": "c07-b-rtg-caller-keywords", "file": _RE, "edits": [("            [discounted_reward_to_go(R, gamma) for R in self._rewards()]\n", "            [discounted_reward_to_go(gamma=gamma, rewards=list(R)) for _i, R in enumerate(episode_rewards)]\n"),
+                                                               ("        returns = jnp.hstack(\n", "        episode_rewards = self._rewards()\n        returns = jnp.hstack(\n")]},
+    {"id": "c07-b-rtg-rewards-inner-list", "file": _RE, "find": "            rewards.append([r for _, _, _, r in episode])", "replace": "            episode_rewards = []\n            episode_rewards.extend(r for _, _, _, r in episode)\n            rewards.append(episode_rewards)"},
+    {"id": "c07-b-a2c-vmap-local-scalar-axes", "file": _A2, "edits": [("    gae_result = jax.vmap(get_gae_for_env, in_axes=(1, 1, 1, 1))(\n", "    gae_per_env = jax.vmap(get_gae_for_env, 1)\n    gae_result = gae_per_env(\n"),
+                                                                      ("    bootstrap_expanded = jnp.expand_dims(next_values_bootstrap, 0)\n", "    bootstrap_expanded = next_values_bootstrap[None]\n"),
+                                                                      ("jnp.concatenate([values[1:], bootstrap_expanded], axis=0)", "jnp.concatenate([values[1:], bootstrap_expanded])"),
+                                                                      ("    values = values.reshape(T, N)\n", "    values = jnp.reshape(values, rewards.shape)\n")]},
+    {"id": "c07-b-a2c-wrapper-reordered", "file": _A2, "edits": [("def prepare_a2c_batch(", "_ENV_AXIS = 1\n\n\ndef prepare_a2c_batch("),
+                                                                 ("    def get_gae_for_env(rewards, vals, next_val, terms):\n        return compute_gae(rewards, vals, next_val, terms, gamma, lmbda)", "    discount = gamma\n    trace_decay = lmbda\n\n    def get_gae_for_env(terms, rewards, vals, next_val):\n        return compute_gae(rewards, vals, terminateds=terms, next_values=next_val, lmbda=trace_decay, gamma=discount)"),
+                                                                 ("in_axes=(1, 1, 1, 1)", "in_axes=(_ENV_AXIS,) * 4"),
+                                                                 ("        rewards, values, all_next_values, terminations\n    )", "        terminations, rewards, values, all_next_values\n    )")]},
+    {"id": "c07-b-enc-body-params-renamed", "file": _E, "edits": [("        not_done,\n        environment_terminates,\n        t,\n    ):", "        alive,\n        environment_terminates,\n        step,\n    ):"),
+                                                                  ("            pred_zs_t, batch.action[:, t]\n", "            pred_zs_t, batch.action[:, step]\n"),
+                                                                  ("        target_zs_t = next_zs[:, t]\n        target_reward_t = batch.reward[:, t]\n        target_done_t = batch.terminated[:, t]", "        target_zs_t = next_zs[:, step]\n        target_reward_t = batch.reward[:, step]\n        target_done_t = batch.terminated[:, step]"),
+                                                                  ("        dynamics_loss = masked_mse_loss(pred_zs_t, target_zs_t, prev_not_done)", "        dynamics_loss = masked_mse_loss(mask=prev_not_done, predictions=pred_zs_t, targets=target_zs_t)"),
+                                                                  ("        prev_not_done = not_done[:, t] * prev_not_done\n", "        prev_not_done = alive[:, step] * prev_not_done\n"),
+                                                                  ("    prev_not_done = jnp.ones_like(not_done[:, 0])", "    prev_not_done = jnp.ones(not_done.shape[0], dtype=not_done.dtype)")]},
+    {"id": "c07-b-enc-carry-namedtuple", "file": _E, "edits": [("from functools import partial\n", "from functools import partial\nfrom typing import NamedTuple\n"),
+                                                               ("def model_based_encoder_loss(", "class _RolloutCarry(NamedTuple):\n    pred_zs: jnp.ndarray\n    still_running: jnp.ndarray\n\n\ndef model_based_encoder_loss("),
+                                                               ("        pred_zs_t, prev_not_done = zs_t_and_prev_not_done\n", "        pred_zs_t = zs_t_and_prev_not_done.pred_zs\n        prev_not_done = zs_t_and_prev_not_done.still_running\n"),
+                                                               ("            (pred_zs_t, prev_not_done),\n            dynamics_loss,", "            _RolloutCarry(pred_zs=pred_zs_t, still_running=prev_not_done),\n            dynamics_loss,"),
+                                                               ("        (pred_zs_t, prev_not_done),\n        encoder,", "        _RolloutCarry(pred_zs_t, prev_not_done),\n        encoder,")]},
 ]
